@@ -1,33 +1,865 @@
 """C06 -- array matching is sound and complete; de-duplication keeps one per value.
 
-E10 index-space typing for the two argsort scans (unique, rem_dup) and
-dominance / provenance rules for match.
+The rules are stated on *terms*, not on statements: a small symbolic executor runs every path of the loop-free functions
+(match, its private helpers, a vectorised unique) and the rules compare the normalised terms of what is returned, the facts that
+hold on each returning path and the subscripts evaluated on the way.  The two argsort scans (unique, rem_dup) are checked with an
+index-space type system (Idx = index into the input, Pos = position in sorted order) over expression descriptors, so that the names
+and the order of locals, while/for, if/elif nesting and array-vs-list bookkeeping do not matter.
 """
 import ast
+import copy
 
 from vcheck import rules
-from vcheck.core import PyRepo, AnalysisError, call_name, dotted_name, kwarg, norm, walk_no_nested
-from vcheck.rules import cfg_of
+from vcheck.cfg import CFG
+from vcheck.core import PyRepo, FuncInfo, AnalysisError, norm, walk_no_nested
 
 MANIFEST = dict(
-    text="Structural rule checking (not a behavioural proof). De-duplication scans (unique, rem_dup): a small index-space type system "
-         "(Idx = index into the input, Pos = position in sorted order; s = a.argsort() maps Pos to Idx, a[s] is Pos-indexed) decides that "
-         "every subscript is applied in the matching space, that a scan starting at sorted position 1 seeds its running value and its "
-         "slot 0 from sorted position 0 of the same space, that all stores into the kept-index array agree on one space and that the "
-         "returned indices are in Idx space. match: a uniqueness guard that raises dominates the search; the searchsorted result is "
-         "clamped (== size -> size-1) before it subscripts the first array or its sorter on every path where the clamp can matter; "
-         "returned pairs derive from where(<first array at the found position> == <second array>) (soundness and one pair per element of "
-         "the second array, ascending); the unsorted branch maps through the sorter; match_multi delegates to match.",
+    text="Structural rule checking (not a behavioural proof). match (with the private helpers it calls inlined) is executed symbolically on "
+         "every path for presorted=False/True; values are normalised terms (x[i][j] = x[i[j]] for index arrays, searchsorted(a[argsort(a)], v) = "
+         "searchsorted(a, v, sorter=argsort(a)), the in-place / minimum / clip / where forms of the high-end clamp are one term, boolean mask = "
+         "where() index). On every returning path: a test that the first array has no repeated value and tests that both arrays are non-empty "
+         "have been passed; the result is (C[I2], I2) with I2 = where(first[C] == second) on the unconverted atleast_1d inputs, C the positions "
+         "of one left-side searchsorted(first, second) mapped through the argsort when the array is not presorted; the positions are clamped "
+         "(== size -> size-1) before they subscript anything unless the path has established max(second) <= max(first). match_multi delegates "
+         "to match. De-duplication scans (unique, rem_dup): an index-space type system (Idx = index into the input, Pos = position in sorted "
+         "order; s = a.argsort() maps Pos to Idx, a[s] is Pos-indexed) over expression descriptors decides that every subscript is applied in "
+         "the matching space, that the scan visits all positions after the seed, that the running value / largest flag are seeded from sorted "
+         "position 0, replaced at a new run and (flag) when a larger flag is seen together with the kept position, that every run is recorded "
+         "exactly once in one container holding one index space with its first entry from sorted position 0, and that the returned indices "
+         "are in Idx space. A loop-free unique is decided on the term of the returned array (sorter[0] followed by sorter[where(sorted[1:] != "
+         "sorted[:-1]) + 1]).",
     note="Not decided: completeness for all arrays (numpy.searchsorted/argsort/unique semantics trusted); NaN handling.",
-    technique="static analysis: index-space typing (small type system over AST), CFG dominance and def-use provenance",
+    technique="static analysis: path-wise symbolic execution to normalised terms (match, vectorised unique), index-space typing over "
+              "expression descriptors with CFG control dependence (scan loops)",
 )
 
 NU = "esutil.numpy_util."
 
 
-# rules that keep their verdict however the code is laid out (decided by term equality, effect analysis or dominance over
-# resolved calls); every other rule of this check is a template rule (vcheck.core.Check.obt)
+# rules that keep their verdict however the code is laid out (decided on normalised terms / path facts / index-space descriptors);
+# every other rule of this check is a template rule (vcheck.core.Check.obt)
 SEMANTIC = ('R06.1', 'R06.2')
+
+
+# ---------------------------------------------------------------------------
+# terms
+# ---------------------------------------------------------------------------
+def K(v):
+    return ("const", v)
+
+
+NONE = K(None)
+NP = ("module", "np")
+_FLIP = {"gt": "lt", "ge": "le"}
+_CMPOPS = {ast.Eq: "eq", ast.NotEq: "ne", ast.Lt: "lt", ast.LtE: "le", ast.Gt: "gt", ast.GtE: "ge", ast.Is: "is", ast.IsNot: "isnot",
+           ast.In: "in", ast.NotIn: "notin"}
+_BINOPS = {ast.Add: "+", ast.Sub: "-", ast.Mult: "*", ast.Div: "/", ast.FloorDiv: "//", ast.Mod: "%", ast.BitAnd: "&", ast.BitOr: "|",
+           ast.BitXor: "^", ast.Pow: "**", ast.LShift: "<<", ast.RShift: ">>", ast.MatMult: "@"}
+
+
+def is_const(t):
+    return isinstance(t, tuple) and len(t) == 2 and t[0] == "const"
+
+
+def subterms(t):
+    """all sub-terms (pre-order), the term itself included"""
+    todo = [t]
+    while todo:
+        x = todo.pop()
+        yield x
+        if isinstance(x, tuple):
+            for c in x[1:] if x and isinstance(x[0], str) else x:
+                if isinstance(c, tuple):
+                    todo.append(c)
+
+
+def contains(t, sub):
+    return any(x == sub for x in subterms(t))
+
+
+def is_indexlike(t):
+    """integer index arrays: for such an i, x[i][j] == x[i[j]] whatever j is"""
+    if not isinstance(t, tuple):
+        return False
+    h = t[0]
+    if h in ("argsort", "ss", "clamp", "where0", "arange"):
+        return True
+    if h == "take":
+        return is_indexlike(t[1]) and not is_const(t[2])
+    if h == "binop" and t[1] in ("+", "-"):
+        return (is_indexlike(t[2]) and is_scalar(t[3])) or (is_indexlike(t[3]) and is_scalar(t[2]) and t[1] == "+")
+    if h == "concat":
+        return all(is_indexlike(x) or is_scalar(x) or (x[0] in ("list", "tuple") and all(is_scalar(y) or is_indexlike(y) for y in x[1:])) for x in t[1:])
+    return False
+
+
+def is_scalar(t):
+    if not isinstance(t, tuple):
+        return False
+    h = t[0]
+    if h == "const":
+        return isinstance(t[1], (int, float, bool)) or t[1] is None
+    if h in ("size", "max", "min"):
+        return True
+    if h == "binop":
+        return is_scalar(t[2]) and is_scalar(t[3])
+    if h == "take":
+        return is_const(t[2]) and isinstance(t[2][1], int) and not isinstance(t[2][1], bool)
+    return False
+
+
+def t_cmp(op, l, r):
+    if op in _FLIP:
+        op, l, r = _FLIP[op], r, l
+    if is_const(l) and is_const(r) and op in ("eq", "ne", "lt", "le", "is", "isnot"):
+        a, b = l[1], r[1]
+        try:
+            return K({"eq": a == b, "ne": a != b, "lt": a < b, "le": a <= b, "is": a is b or (a == b and type(a) is type(b)),
+                      "isnot": not (a is b or (a == b and type(a) is type(b)))}[op])
+        except Exception:
+            pass
+    if op in ("in", "notin") and isinstance(r, tuple) and r[0] in ("tuple", "list"):
+        d = t_or([t_cmp("eq", l, x) for x in r[1:]])
+        return d if op == "in" else t_not(d)
+    if op in ("eq", "ne") and repr(l) > repr(r):
+        l, r = r, l
+    return ("cmp", op, l, r)
+
+
+def t_or(args):
+    out = []
+    for a in args:
+        if a[0] == "or":
+            out.extend(a[1:])
+        else:
+            out.append(a)
+    if any(is_const(a) and bool(a[1]) for a in out):
+        return K(True)
+    out = [a for a in out if not is_const(a)]
+    if not out:
+        return K(False)
+    return out[0] if len(out) == 1 else ("or",) + tuple(out)
+
+
+def t_and(args):
+    out = []
+    for a in args:
+        if a[0] == "and":
+            out.extend(a[1:])
+        else:
+            out.append(a)
+    if any(is_const(a) and not bool(a[1]) for a in out):
+        return K(False)
+    out = [a for a in out if not is_const(a)]
+    if not out:
+        return K(True)
+    return out[0] if len(out) == 1 else ("and",) + tuple(out)
+
+
+def t_not(t):
+    if is_const(t):
+        return K(not t[1])
+    if t[0] == "not":
+        return t[1]
+    return ("not", t)
+
+
+def t_binop(op, l, r):
+    if is_const(l) and is_const(r):
+        try:
+            a, b = l[1], r[1]
+            return K({"+": lambda: a + b, "-": lambda: a - b, "*": lambda: a * b, "//": lambda: a // b, "%": lambda: a % b}[op]())
+        except Exception:
+            pass
+    if op == "+" and is_const(l) and not is_const(r):
+        l, r = r, l
+    if op == "-" and is_const(r) and isinstance(r[1], int) and not isinstance(r[1], bool):
+        op, r = "+", K(-r[1])
+    if op == "+" and is_const(r) and r[1] == 0:
+        return l
+    # (x + a) + b
+    if op == "+" and is_const(r) and l[0] == "binop" and l[1] == "+" and is_const(l[3]):
+        return t_binop("+", l[2], t_binop("+", l[3], r))
+    return ("binop", op, l, r)
+
+
+def t_size(x):
+    h = x[0]
+    if h == "argsort":
+        return t_size(x[1])
+    if h == "take" and is_indexlike(x[2]):
+        return t_size(x[2])
+    if h in ("clamp", "ss"):
+        return t_size(x[1] if h == "clamp" else x[3])
+    if h in ("tuple", "list"):
+        return K(len(x) - 1)
+    if h == "conv" and x[1] in ("astype", "dtype"):
+        return t_size(x[2])
+    if h == "a1d" and x[1][0] in ("tuple", "list"):
+        return K(len(x[1]) - 1)
+    return ("size", x)
+
+
+def _unperm(x):
+    """x[argsort(x)] has the same multiset of values as x"""
+    if x[0] == "take" and x[2] == ("argsort", x[1]):
+        return x[1]
+    return x
+
+
+def t_take(base, idx):
+    h = base[0]
+    if idx[0] == "where0" and idx[1][0] in ("cmp", "inv", "and", "or", "binop"):
+        idx = idx[1]            # x[where(mask)[0]] selects the same elements, in the same order, as x[mask]
+    if h in ("tuple", "list") and is_const(idx) and isinstance(idx[1], int) and not isinstance(idx[1], bool):
+        n = len(base) - 1
+        if -n <= idx[1] < n:
+            return base[1:][idx[1]]
+    if h == "shape" and idx == K(0):
+        return t_size(base[1])
+    if h == "take" and is_indexlike(base[2]):
+        return t_take(base[1], t_take(base[2], idx))
+    if h == "concat" and idx == K(0) and len(base) > 1 and base[1][0] in ("list", "tuple") and len(base[1]) > 1:
+        return base[1][1]
+    return ("take", base, idx)
+
+
+def _minus1_of(val, arrs):
+    """is `val` the term size(A) - 1 for an array A; returns A or None"""
+    if val[0] == "binop" and val[1] == "+" and val[3] == K(-1) and val[2][0] == "size":
+        return val[2][1]
+    return None
+
+
+def _is_at_end(cond, p):
+    """cond says `p == size(A)` / `p >= size(A)` / `p > size(A) - 1` (element-wise); returns A or None"""
+    if cond[0] != "cmp":
+        return None
+    op, l, r = cond[1:]
+    if op == "eq":
+        for a, b in ((l, r), (r, l)):
+            if a == p and b[0] == "size":
+                return b[1]
+    if op == "le" and r == p and l[0] == "size":          # size <= p
+        return l[1]
+    if op == "lt" and r == p:                              # size-1 < p
+        return _minus1_of(l, None)
+    return None
+
+
+def _is_below_end(cond, p):
+    """cond says `p < size(A)` / `p <= size(A)-1`"""
+    if cond[0] != "cmp":
+        return None
+    op, l, r = cond[1:]
+    if op == "lt" and l == p and r[0] == "size":
+        return r[1]
+    if op == "le" and l == p:
+        return _minus1_of(r, None)
+    if op == "ne" :
+        for a, b in ((l, r), (r, l)):
+            if a == p and b[0] == "size":
+                return b[1]
+    return None
+
+
+def t_setitem(base, idx, val):
+    # high-end clamp: p[p == n] = n - 1   /   p[where(p == n)] = n - 1
+    c = idx[1] if idx[0] == "where0" else idx
+    a = _is_at_end(c, base)
+    if a is not None and base[0] == "ss":
+        if _minus1_of(val, None) == a:
+            return ("clamp", base, a)
+        return ("badclamp", base, a, val)
+    return ("setitem", base, idx, val)
+
+
+def t_minimum(a, b):
+    for p, v in ((a, b), (b, a)):
+        arr = _minus1_of(v, None)
+        if arr is not None and p[0] in ("ss", "clamp"):
+            return ("clamp", p, arr) if p[0] == "ss" else p
+    for p, v in ((a, b), (b, a)):
+        if p[0] == "ss" and is_scalar(v):
+            return ("badclamp", p, None, v)
+    return ("call", "minimum", (a, b))
+
+
+def t_where3(c, a, b):
+    # where(p == n, n-1, p) / where(p < n, p, n-1)
+    for p, v, test in ((b, a, _is_at_end), (a, b, _is_below_end)):
+        if p[0] == "ss":
+            arr = test(c, p)
+            if arr is not None and _minus1_of(v, None) == arr:
+                return ("clamp", p, arr)
+    return ("where3", c, a, b)
+
+
+def t_ss(a, v, side, sorter):
+    if sorter is None or sorter == NONE:
+        if a[0] == "take" and a[2] == ("argsort", a[1]):
+            return ("ss", a[1], a[2], v, side)
+        return ("ss", a, NONE, v, side)
+    return ("ss", a, sorter, v, side)
+
+
+def atoms(term, truth, out):
+    """decompose a decided test into atomic facts [(term, truth)]"""
+    if term[0] == "not":
+        atoms(term[1], not truth, out)
+    elif term[0] == "or" and truth is False:
+        for a in term[1:]:
+            atoms(a, False, out)
+    elif term[0] == "and" and truth is True:
+        for a in term[1:]:
+            atoms(a, True, out)
+    else:
+        out.append((term, truth))
+    return out
+
+
+# ---------------------------------------------------------------------------
+# path-wise symbolic execution of loop-free functions
+# ---------------------------------------------------------------------------
+class Unsupported(Exception):
+    pass
+
+
+class _Raise(Exception):
+    def __init__(self, exc, line):
+        self.exc = exc
+        self.line = line
+
+
+class _Return(Exception):
+    def __init__(self, val, line):
+        self.val = val
+        self.line = line
+
+
+class Path:
+    def __init__(self, kind, value, facts, events, line):
+        self.kind = kind        # 'return' | 'raise'
+        self.value = value
+        self.facts = facts      # [(atomic term, truth, seq)]
+        self.events = events    # [(kind, term..., line, seq)]
+        self.line = line
+
+    def holds(self, pred):
+        """first fact for which pred(term, truth) is true"""
+        for t, v, _ in self.facts:
+            if pred(t, v):
+                return (t, v)
+        return None
+
+
+class Frame:
+    def __init__(self):
+        self.env = {}
+
+
+_IDENT_NP = ("asarray", "asanyarray", "array", "ascontiguousarray")
+_ARRAYISH = ("a1d", "asarr", "argsort", "ss", "clamp", "where0", "take", "alloc", "arr", "concat", "setitem", "unique")
+
+
+class SX:
+    MAXPATHS = 400
+
+    def __init__(self, funcs, keep_calls=()):
+        self.funcs = funcs              # module-level name -> ast.FunctionDef
+        self.keep_calls = set(keep_calls)   # module functions that are not inlined
+        self.reset([])
+
+    def reset(self, decisions):
+        self.heap = {}
+        self.nref = 0
+        self.decisions = list(decisions)
+        self.ndec = 0
+        self.facts = []
+        self.known = {}
+        self.events = []
+        self.seq = 0
+        self.depth = 0
+
+    # -- driver ------------------------------------------------------------
+    def run(self, fn, args):
+        """all paths of fn with the given {param: term} bindings (other parameters: default value, else ('param', name))"""
+        paths = []
+        dec = []
+        while True:
+            self.reset(dec)
+            fr = Frame()
+            self._bind_params(fr, fn, [], dict(args), free=True)
+            try:
+                self.block(fn.body, fr)
+                paths.append(Path("return", NONE, list(self.facts), list(self.events), getattr(fn, "end_lineno", fn.lineno)))
+            except _Return as r:
+                paths.append(Path("return", r.val, list(self.facts), list(self.events), r.line))
+            except _Raise as r:
+                paths.append(Path("raise", r.exc, list(self.facts), list(self.events), r.line))
+            dec = list(self.decisions)
+            while dec and dec[-1] is False:
+                dec.pop()
+            if not dec:
+                break
+            dec[-1] = False
+            if len(paths) > self.MAXPATHS:
+                raise Unsupported("more than %d paths" % self.MAXPATHS)
+        return paths
+
+    # -- store ---------------------------------------------------------------
+    def new(self, term):
+        self.nref += 1
+        self.heap[self.nref] = term
+        return self.nref
+
+    def _bind_params(self, fr, fn, pos, kw, free=False):
+        a = fn.args
+        names = [x.arg for x in a.posonlyargs + a.args]
+        defaults = dict(zip(names[len(names) - len(a.defaults):], a.defaults))
+        for x, d in zip(a.kwonlyargs, a.kw_defaults):
+            names.append(x.arg)
+            if d is not None:
+                defaults[x.arg] = d
+        if a.vararg or a.kwarg:
+            raise Unsupported("*args/**kwargs in %s" % fn.name)
+        if len(pos) > len(names):
+            raise Unsupported("too many arguments for %s" % fn.name)
+        given = dict(zip(names, pos))
+        for k, v in kw.items():
+            if k not in names:
+                raise Unsupported("unknown keyword %s for %s" % (k, fn.name))
+            given[k] = v
+        for n in names:
+            if n in given:
+                v = given[n]
+                fr.env[n] = v if isinstance(v, int) else self.new(v)
+            elif n in defaults and not free:
+                fr.env[n] = self.new(self.ev(defaults[n], Frame()))
+            else:
+                fr.env[n] = self.new(("param", n))
+
+    # -- decisions -----------------------------------------------------------
+    def _seq(self):
+        self.seq += 1
+        return self.seq
+
+    def decide(self, t, line):
+        t = self._truth(t)
+        if is_const(t):
+            return bool(t[1])
+        if t in self.known:
+            return self.known[t]
+        if t[0] == "not" and t[1] in self.known:
+            return not self.known[t[1]]
+        for truth in (True, False):
+            at = atoms(t, truth, [])
+            if at and all(self.known.get(x) is v for x, v in at):
+                return truth
+        if self.ndec < len(self.decisions):
+            d = self.decisions[self.ndec]
+        else:
+            d = True
+            self.decisions.append(True)
+        self.ndec += 1
+        self.known[t] = d
+        for x, v in atoms(t, d, []):
+            self.known[x] = v
+            self.facts.append((x, v, self._seq()))
+        return d
+
+    def _truth(self, t):
+        """simplify a term used as a condition"""
+        h = t[0]
+        if h == "cmp" and t[1] in ("is", "isnot") and (t[3] == NONE or t[2] == NONE):
+            x = t[2] if t[3] == NONE else t[3]
+            if is_const(x):
+                return K((x == NONE) == (t[1] == "is"))
+            if x[0] in _ARRAYISH or x[0] in ("tuple", "list", "size"):
+                return K(t[1] == "isnot")
+        if h == "not":
+            return t_not(self._truth(t[1]))
+        if h == "or":
+            return t_or([self._truth(x) for x in t[1:]])
+        if h == "and":
+            return t_and([self._truth(x) for x in t[1:]])
+        if h in ("tuple", "list"):
+            return K(len(t) > 1)
+        return t
+
+    # -- statements ----------------------------------------------------------
+    def block(self, stmts, fr):
+        for st in stmts:
+            self.stmt(st, fr)
+
+    def stmt(self, st, fr):
+        if isinstance(st, ast.Assign):
+            ref = self._ev_ref(st.value, fr)
+            for t in st.targets:
+                self._assign(t, ref, fr, st)
+        elif isinstance(st, ast.AnnAssign):
+            if st.value is not None:
+                self._assign(st.target, self._ev_ref(st.value, fr), fr, st)
+        elif isinstance(st, ast.AugAssign):
+            op = _BINOPS.get(type(st.op))
+            v = self.ev(st.value, fr)
+            if isinstance(st.target, ast.Name):
+                if st.target.id not in fr.env:
+                    raise Unsupported("augmented assignment to unbound %s" % st.target.id)
+                ref = fr.env[st.target.id]
+                new = t_binop(op, self.heap[ref], v)
+                if is_scalar(self.heap[ref]):
+                    fr.env[st.target.id] = self.new(new)
+                else:
+                    self.heap[ref] = new
+            elif isinstance(st.target, ast.Subscript) and isinstance(st.target.value, ast.Name) and st.target.value.id in fr.env:
+                ref = fr.env[st.target.value.id]
+                idx = self.ev_index(st.target.slice, fr)
+                self.heap[ref] = ("setitem", self.heap[ref], idx, t_binop(op, t_take(self.heap[ref], idx), v))
+            else:
+                raise Unsupported("augmented assignment at line %d" % st.lineno)
+        elif isinstance(st, ast.Expr):
+            self.ev(st.value, fr)
+        elif isinstance(st, ast.If):
+            if self.decide(self.ev(st.test, fr), st.lineno):
+                self.block(st.body, fr)
+            else:
+                self.block(st.orelse, fr)
+        elif isinstance(st, ast.Return):
+            raise _Return(self.ev(st.value, fr) if st.value is not None else NONE, st.lineno)
+        elif isinstance(st, ast.Raise):
+            raise _Raise(self.ev(st.exc, fr) if st.exc is not None else ("opaque", "reraise"), st.lineno)
+        elif isinstance(st, ast.Assert):
+            if not self.decide(self.ev(st.test, fr), st.lineno):
+                raise _Raise(("exc", "AssertionError", ()), st.lineno)
+        elif isinstance(st, (ast.Pass, ast.Import, ast.ImportFrom, ast.Global, ast.Nonlocal)):
+            pass
+        elif isinstance(st, ast.Delete):
+            for t in st.targets:
+                if isinstance(t, ast.Name):
+                    fr.env.pop(t.id, None)
+                else:
+                    raise Unsupported("del of a non-name at line %d" % st.lineno)
+        elif isinstance(st, (ast.FunctionDef, ast.ClassDef)):
+            fr.env[st.name] = self.new(("opaque", "def " + st.name))
+        else:
+            raise Unsupported("%s at line %d" % (type(st).__name__, st.lineno))
+
+    def _ev_ref(self, e, fr):
+        """evaluate to a heap reference; a bare local name shares the object it is bound to"""
+        if isinstance(e, ast.Name) and e.id in fr.env:
+            return fr.env[e.id]
+        return self.new(self.ev(e, fr))
+
+    def _assign(self, t, ref, fr, st):
+        if isinstance(t, ast.Name):
+            fr.env[t.id] = ref
+        elif isinstance(t, (ast.Tuple, ast.List)):
+            v = self.heap[ref]
+            if any(isinstance(x, ast.Starred) for x in t.elts):
+                raise Unsupported("starred target at line %d" % st.lineno)
+            if v[0] in ("tuple", "list") and len(v) - 1 == len(t.elts):
+                for x, xv in zip(t.elts, v[1:]):
+                    self._assign(x, self.new(xv), fr, st)
+            else:
+                for k, x in enumerate(t.elts):
+                    self._assign(x, self.new(("item", v, k)), fr, st)
+        elif isinstance(t, ast.Subscript):
+            if not (isinstance(t.value, ast.Name) and t.value.id in fr.env):
+                raise Unsupported("store into a non-local at line %d" % st.lineno)
+            r = fr.env[t.value.id]
+            idx = self.ev_index(t.slice, fr)
+            self.heap[r] = t_setitem(self.heap[r], idx, self.heap[ref])
+            self.events.append(("store", self.heap[r], st.lineno, self._seq()))
+        else:
+            raise Unsupported("assignment target %s at line %d" % (type(t).__name__, st.lineno))
+
+    # -- expressions ---------------------------------------------------------
+    def ev_index(self, e, fr):
+        if isinstance(e, ast.Slice):
+            return ("slice",) + tuple(self.ev(x, fr) if x is not None else NONE for x in (e.lower, e.upper, e.step))
+        if isinstance(e, ast.Tuple):
+            return ("tuple",) + tuple(self.ev_index(x, fr) for x in e.elts)
+        return self.ev(e, fr)
+
+    def ev(self, e, fr):
+        if isinstance(e, ast.Constant):
+            return K(e.value)
+        if isinstance(e, ast.Name):
+            if e.id in fr.env:
+                return self.heap[fr.env[e.id]]
+            if e.id in ("np", "numpy"):
+                return NP
+            if e.id in self.funcs:
+                return ("func", e.id)
+            return ("global", e.id)
+        if isinstance(e, ast.Attribute):
+            b = self.ev(e.value, fr)
+            if b == NP:
+                return ("npattr", e.attr)
+            if e.attr == "size":
+                return t_size(b)
+            if e.attr in ("shape", "dtype"):
+                return (e.attr, b)
+            return ("attr", b, e.attr)
+        if isinstance(e, ast.Subscript):
+            b = self.ev(e.value, fr)
+            idx = self.ev_index(e.slice, fr)
+            r = t_take(b, idx)
+            self.events.append(("take", r, e.lineno, self._seq()))
+            return r
+        if isinstance(e, ast.Call):
+            return self.ev_call(e, fr)
+        if isinstance(e, ast.Compare):
+            parts = []
+            l = self.ev(e.left, fr)
+            for op, c in zip(e.ops, e.comparators):
+                r = self.ev(c, fr)
+                parts.append(t_cmp(_CMPOPS[type(op)], l, r))
+                l = r
+            return parts[0] if len(parts) == 1 else t_and(parts)
+        if isinstance(e, ast.BoolOp):
+            vals = [self.ev(v, fr) for v in e.values]
+            return t_or(vals) if isinstance(e.op, ast.Or) else t_and(vals)
+        if isinstance(e, ast.UnaryOp):
+            v = self.ev(e.operand, fr)
+            if isinstance(e.op, ast.Not):
+                return t_not(self._truth(v))
+            if isinstance(e.op, ast.USub):
+                return K(-v[1]) if is_const(v) and isinstance(v[1], (int, float)) else ("neg", v)
+            if isinstance(e.op, ast.UAdd):
+                return v
+            return ("inv", v)
+        if isinstance(e, ast.BinOp):
+            return t_binop(_BINOPS[type(e.op)], self.ev(e.left, fr), self.ev(e.right, fr))
+        if isinstance(e, ast.IfExp):
+            return self.ev(e.body if self.decide(self.ev(e.test, fr), e.lineno) else e.orelse, fr)
+        if isinstance(e, (ast.Tuple, ast.List)):
+            if any(isinstance(x, ast.Starred) for x in e.elts):
+                raise Unsupported("starred element at line %d" % e.lineno)
+            return ("tuple" if isinstance(e, ast.Tuple) else "list",) + tuple(self.ev(x, fr) for x in e.elts)
+        if isinstance(e, ast.NamedExpr) and isinstance(e.target, ast.Name):
+            ref = self._ev_ref(e.value, fr)
+            fr.env[e.target.id] = ref
+            return self.heap[ref]
+        if isinstance(e, (ast.JoinedStr, ast.Dict, ast.Set, ast.Lambda, ast.ListComp, ast.SetComp, ast.DictComp, ast.GeneratorExp, ast.FormattedValue)):
+            return ("opaque", norm(e))
+        raise Unsupported("%s at line %d" % (type(e).__name__, getattr(e, "lineno", 0)))
+
+    # -- calls ---------------------------------------------------------------
+    def ev_call(self, e, fr):
+        if any(isinstance(a, ast.Starred) for a in e.args) or any(k.arg is None for k in e.keywords):
+            raise Unsupported("star-arguments at line %d" % e.lineno)
+        f = e.func
+        # evaluate the arguments keeping references for plain names (a helper may mutate them, out= names its target)
+        arefs = [fr.env[a.id] if isinstance(a, ast.Name) and a.id in fr.env else None for a in e.args]
+        args = [self.ev(a, fr) for a in e.args]
+        krefs = {k.arg: (fr.env[k.value.id] if isinstance(k.value, ast.Name) and k.value.id in fr.env else None) for k in e.keywords}
+        kw = {k.arg: self.ev(k.value, fr) for k in e.keywords}
+        if isinstance(f, ast.Attribute):
+            b = self.ev(f.value, fr)
+            if b == NP:
+                r = self.np_call(f.attr, args, dict(kw), e)
+                out = krefs.get("out")
+                if "out" in kw and kw["out"] != NONE:
+                    if out is None:
+                        raise Unsupported("out= is not a local name at line %d" % e.lineno)
+                    self.heap[out] = r
+                    self.events.append(("store", r, e.lineno, self._seq()))
+                return r
+            bref = fr.env[f.value.id] if isinstance(f.value, ast.Name) and f.value.id in fr.env else None
+            return self.method_call(b, bref, f.attr, args, kw, e)
+        if isinstance(f, ast.Name):
+            n = f.id
+            if n in fr.env:
+                return ("call", ("local", n), tuple(args), tuple(sorted(kw.items())))
+            if n in self.funcs:
+                if n == "unique" and len(args) == 1 and not kw:
+                    return ("unique", _unperm(args[0]))          # the package's own unique: one index per distinct value
+                if n in self.keep_calls or self.depth >= 3:
+                    return ("call", n, tuple(args), tuple(sorted(kw.items())))
+                return self.inline(self.funcs[n], args, arefs, kw, krefs, e)
+            return self.builtin(n, args, kw, e)
+        return ("call", ("expr", norm(f)), tuple(args), tuple(sorted(kw.items())))
+
+    def inline(self, fn, args, arefs, kw, krefs, e):
+        if any(isinstance(x, (ast.For, ast.While, ast.Try, ast.With, ast.Yield, ast.YieldFrom)) for x in walk_no_nested(fn)):
+            return ("call", fn.name, tuple(args), tuple(sorted(kw.items())))
+        fr = Frame()
+        pos = [r if r is not None else v for r, v in zip(arefs, args)]
+        kws = {k: (krefs[k] if krefs.get(k) is not None else v) for k, v in kw.items()}
+        self._bind_params(fr, fn, pos, kws)
+        self.depth += 1
+        try:
+            self.block(fn.body, fr)
+            return NONE
+        except _Return as r:
+            return r.val
+        finally:
+            self.depth -= 1
+
+    def builtin(self, n, args, kw, e):
+        if n == "len" and len(args) == 1:
+            return t_size(args[0])
+        if n == "isinstance" and len(args) == 2:
+            types = args[1][1:] if args[1][0] == "tuple" else (args[1],)
+            return ("isinstance", args[0], tuple(sorted(types, key=repr)))
+        if n in ("max", "min") and len(args) == 1 and not kw:
+            return (n, _unperm(args[0]))
+        if n == "min" and len(args) == 2:
+            return t_minimum(args[0], args[1])
+        if n == "min" and len(args) == 1 and args[0][0] in ("tuple", "list") and len(args[0]) == 3:
+            return t_minimum(args[0][1], args[0][2])
+        if n in ("all", "any") and len(args) == 1:
+            return (n, args[0])
+        if n == "set" and len(args) == 1:
+            return ("unique", _unperm(args[0]))
+        if n in ("int", "bool") and len(args) == 1 and is_scalar(args[0]):
+            return args[0] if n == "int" else self._truth(args[0])
+        if n in ("list", "tuple") and not args:
+            return (n,)
+        if n and n[0].isupper() and (n.endswith("Error") or n.endswith("Exception") or n.endswith("Warning")):
+            return ("exc", n, tuple(args))
+        return ("call", n, tuple(args), tuple(sorted(kw.items())))
+
+    def _asarray(self, x, kw, extra):
+        if "dtype" in kw or extra:
+            return ("conv", "dtype", x, kw.get("dtype", extra[0] if extra else NONE))
+        if x[0] in ("a1d", "asarr") or x[0] in _ARRAYISH:
+            return x
+        if x[0] in ("list", "tuple"):
+            return ("arr", x)
+        return ("asarr", x)
+
+    def np_call(self, name, args, kw, e):
+        a0 = args[0] if args else None
+        kw.pop("out", None) if name in ("minimum", "clip") else None
+        if name == "atleast_1d" and len(args) == 1 and not kw:
+            if a0[0] == "a1d":
+                return a0
+            if a0[0] == "asarr":
+                return ("a1d", a0[1])
+            if a0[0] in _ARRAYISH:
+                return a0
+            return ("a1d", a0)
+        if name in _IDENT_NP and args:
+            kw.pop("copy", None)
+            kw.pop("order", None)
+            return self._asarray(a0, kw, args[1:])
+        if name in ("ravel", "copy") and len(args) == 1 and not kw and a0[0] in _ARRAYISH:
+            return a0
+        if name == "argsort" and len(args) == 1 and set(kw) <= {"kind"}:
+            return ("argsort", a0)
+        if name == "sort" and len(args) == 1 and set(kw) <= {"kind"}:
+            return t_take(a0, ("argsort", a0))
+        if name == "searchsorted" and len(args) >= 2:
+            side = args[2] if len(args) > 2 else kw.get("side", K("left"))
+            sorter = args[3] if len(args) > 3 else kw.get("sorter")
+            r = t_ss(a0, args[1], side, sorter)
+            self.events.append(("ss", r, e.lineno, self._seq()))
+            return r
+        if name == "where" and not kw:
+            if len(args) == 1:
+                return ("tuple", ("where0", a0))
+            if len(args) == 3:
+                return t_where3(*args)
+        if name == "nonzero" and len(args) == 1 and not kw:
+            return ("tuple", ("where0", a0))
+        if name == "flatnonzero" and len(args) == 1 and not kw:
+            return ("where0", a0)
+        if name == "unique" and len(args) == 1 and not kw:
+            return ("unique", _unperm(a0))
+        if name == "minimum" and len(args) == 2 and not kw:
+            return t_minimum(args[0], args[1])
+        if name == "clip" and len(args) >= 2 and not kw:
+            lo = args[1]
+            hi = args[2] if len(args) > 2 else NONE
+            if lo in (NONE, K(0)) and hi != NONE:
+                return t_minimum(a0, hi)
+        if name in ("max", "amax", "min", "amin") and len(args) == 1 and not kw:
+            return ("max" if "max" in name else "min", _unperm(a0))
+        if name in ("all", "any", "alltrue", "sometrue") and len(args) == 1 and not kw:
+            return ("all" if name in ("all", "alltrue") else "any", a0)
+        if name == "size" and len(args) == 1 and not kw:
+            return t_size(a0)
+        if name in ("zeros", "empty", "ones") and args:
+            return ("alloc", name, a0)
+        if name == "diff" and len(args) == 1 and not kw:
+            return ("diff", a0)
+        if name in ("concatenate", "hstack") and len(args) == 1 and a0[0] in ("tuple", "list") and set(kw) <= {"axis"}:
+            return ("concat",) + tuple(a0[1:])
+        if name == "append" and len(args) == 2 and not kw:
+            return ("concat", args[0], args[1])
+        if name == "arange" and len(args) == 1:
+            return ("arange", a0)
+        if name == "take" and len(args) == 2 and not kw:
+            return t_take(args[0], args[1])
+        if name in ("logical_not", "invert") and len(args) == 1:
+            return ("inv", a0)
+        return ("call", "np." + name, tuple(args), tuple(sorted(kw.items())))
+
+    def method_call(self, b, bref, name, args, kw, e):
+        a0 = args[0] if args else None
+        if name == "argsort" and not args and set(kw) <= {"kind"}:
+            return ("argsort", b)
+        if name in ("max", "min") and not args and not kw:
+            return (name, _unperm(b))
+        if name in ("all", "any") and not args and not kw:
+            return (name, b)
+        if name == "astype":
+            return ("conv", "astype", b, a0 if args else kw.get("dtype", NONE))
+        if name == "view" and (args or kw):
+            return ("conv", "view", b, a0 if args else NONE)
+        if name in ("ravel", "flatten", "copy") and not args and not kw and b[0] in _ARRAYISH:
+            return b
+        if name == "nonzero" and not args:
+            return ("tuple", ("where0", b))
+        if name == "searchsorted" and args:
+            side = args[1] if len(args) > 1 else kw.get("side", K("left"))
+            sorter = args[2] if len(args) > 2 else kw.get("sorter")
+            r = t_ss(b, a0, side, sorter)
+            self.events.append(("ss", r, e.lineno, self._seq()))
+            return r
+        if name == "clip" and (args or kw):
+            lo = a0 if args else kw.get("min", NONE)
+            hi = args[1] if len(args) > 1 else kw.get("max", NONE)
+            if lo in (NONE, K(0)) and hi != NONE:
+                r = t_minimum(b, hi)
+                if "out" in kw and kw["out"] != NONE:
+                    raise Unsupported("clip(out=) method at line %d" % e.lineno)
+                return r
+        if name == "sort" and not args and set(kw) <= {"kind"}:
+            if bref is None:
+                raise Unsupported("in-place sort of a non-local at line %d" % e.lineno)
+            self.heap[bref] = ("sorted", b)
+            self.events.append(("sort", b, e.lineno, self._seq()))
+            return NONE
+        if name == "append" and len(args) == 1 and b[0] == "list" and bref is not None:
+            self.heap[bref] = b + (a0,)
+            return NONE
+        if name in ("take",) and len(args) == 1 and not kw:
+            return t_take(b, a0)
+        if name == "sum" and not args:
+            return ("sum", b)
+        if name == "tolist" and not args:
+            return b
+        return ("mcall", b, name, tuple(args), tuple(sorted(kw.items())))
+
+
+class RawModule:
+    """the module as written (no rename-undo): every rule below finds its constructs through parameters, numpy callees and data flow"""
+
+    def __init__(self, repo, modname):
+        self.info = repo.module(modname)
+        self.name = modname
+        self.path = self.info.path
+        self.tree = ast.parse(self.info.src, filename=self.path)
+        self.defs = {n.name: n for n in self.tree.body if isinstance(n, ast.FunctionDef)}
+
+    def func(self, name):
+        if name not in self.defs:
+            raise AnalysisError("anchor %s.%s not found in the current tree" % (self.name, name))
+        return FuncInfo(self.name + "." + name, self.info, None, self.defs[name], self.path)
 
 
 def run(chk):
@@ -36,358 +868,1197 @@ def run(chk):
     chk.explanation = MANIFEST["text"]
     chk.trusted = ["numpy.argsort / searchsorted / unique / where semantics", "CPython ast"]
     chk.floor = 30
-    for name, arrs in (("unique", ["arr"]), ("rem_dup", ["arr", "flag"])):
-        fi = repo.func(NU + name)
+    mod = RawModule(repo, NU[:-1])
+    for name, arrs in (("unique", 1), ("rem_dup", 2)):
+        fi = mod.func(name)
         chk.analysed_unit(fi.qualname)
-        index_spaces(chk, fi, arrs)
-    match_rules(chk, repo)
+        dedup_rules(chk, mod, fi, arrs)
+    match_rules(chk, mod)
 
 
 # ---------------------------------------------------------------------------
-class Spaces:
-    def __init__(self, fi, origs):
-        self.fi = fi
-        self.fn = fi.node
-        self.origs = set(origs)     # caller arrays (Idx-indexed)
-        self.sorter = None          # name of argsort result
-        self.pos_arrays = set()     # arrays indexed by sorted position (a[s])
-        self.pos_vars = set()
-        self.idx_vars = set()
-        self.holds = {}             # array name -> 'Idx' | 'Pos' | 'mixed'
-        self._infer()
+# reporting helper: one rule instance decided over several paths
+# ---------------------------------------------------------------------------
+class Verdicts:
+    """collects (ok, msg, where) per instance key; the instance is a violation when some path contradicts the rule, has no verdict
+    when some path could not be recognised, and passes otherwise"""
 
-    def _infer(self):
-        fn = self.fn
-        assigns = sorted([x for x in walk_no_nested(fn) if isinstance(x, ast.Assign)], key=lambda x: x.lineno)
-        for a in assigns:
-            v = a.value
-            if isinstance(v, ast.Call) and call_name(v) == "argsort" and isinstance(a.targets[0], ast.Name):
-                recv = norm(v.func.value) if isinstance(v.func, ast.Attribute) and dotted_name(v.func.value) not in ("np", "numpy") else (norm(v.args[0]) if v.args else "")
-                if recv in self.origs and self.sorter is None:
-                    self.sorter = a.targets[0].id
-        s = self.sorter
-        if s is None:
-            return
-        for a in assigns:
-            v = a.value
-            if isinstance(v, ast.Subscript) and isinstance(v.value, ast.Name) and v.value.id in self.origs and norm(v.slice) == s \
-                    and isinstance(a.targets[0], ast.Name):
-                self.pos_arrays.add(a.targets[0].id)
-        # position variables: loop counters / names used to subscript the sorter or a Pos array
-        for x in walk_no_nested(fn):
-            if isinstance(x, ast.Subscript) and isinstance(x.value, ast.Name) and (x.value.id == s or x.value.id in self.pos_arrays):
-                if isinstance(x.slice, ast.Name):
-                    self.pos_vars.add(x.slice.id)
-        for a in assigns:
-            v = a.value
-            if isinstance(a.targets[0], ast.Name) and isinstance(v, ast.Subscript) and isinstance(v.value, ast.Name) and v.value.id == s \
-                    and isinstance(v.slice, ast.Name) and v.slice.id in self.pos_vars:
-                self.idx_vars.add(a.targets[0].id)
-        # what do locally allocated index arrays hold
-        for a in assigns:
-            t = a.targets[0]
-            if isinstance(t, ast.Subscript) and isinstance(t.value, ast.Name) and t.value.id not in self.origs and t.value.id != s \
-                    and t.value.id not in self.pos_arrays:
-                sp = self.space_of_value(a.value)
-                if sp is not None:
-                    cur = self.holds.get(t.value.id)
-                    self.holds[t.value.id] = sp if cur in (None, sp) else "mixed"
+    def __init__(self):
+        self.d = {}
+        self.order = []
 
-    def space_of_value(self, v):
-        if isinstance(v, ast.Name):
-            if v.id in self.idx_vars:
-                return "Idx"
-            if v.id in self.pos_vars:
-                return "Pos"
-        if isinstance(v, ast.Subscript) and isinstance(v.value, ast.Name) and v.value.id == self.sorter:
-            return "Idx"
-        return None
+    def add(self, key, ok, msg, where):
+        if key not in self.d:
+            self.d[key] = []
+            self.order.append(key)
+        self.d[key].append((ok, msg, where))
 
-    def index_space(self, e):
-        """space of an index expression: 'Idx', 'Pos', 'lit', 'slice', None(unknown)"""
-        if isinstance(e, ast.Constant) and isinstance(e.value, int):
-            return "lit"
-        if isinstance(e, ast.UnaryOp) and isinstance(e.operand, ast.Constant):
-            return "lit"
-        if isinstance(e, ast.Slice):
-            return "slice"
-        if isinstance(e, ast.Name):
-            if e.id in self.idx_vars:
-                return "Idx"
-            if e.id in self.pos_vars:
-                return "Pos"
-            if e.id == self.sorter:
-                return "Idx"          # whole sorter array: Idx values
-            if e.id in self.holds:
-                return self.holds[e.id]
-        if isinstance(e, ast.Subscript) and isinstance(e.value, ast.Name):
-            if e.value.id == self.sorter:
-                return "Idx"
-            if e.value.id in self.holds:
-                isp = self.index_space(e.slice)
-                return self.holds[e.value.id]
-        if isinstance(e, ast.BinOp):
-            return None
-        return None
+    def emit(self, chk, rule, prefix):
+        for key in self.order:
+            rs = self.d[key]
+            bad = [r for r in rs if r[0] is False]
+            unk = [r for r in rs if r[0] is None]
+            pick = (bad or unk or rs)[0]
+            ok = False if bad else (None if unk else True)
+            chk.ob(rule, prefix + "::" + key, ok, pick[2], pick[1])
 
 
-def index_spaces(chk, fi, origs):
-    q = fi.qualname
-    sp = Spaces(fi, origs)
-    chk.ob("R06.1", q + "::sorter-found", sp.sorter is not None, fi.where(), "the scan is driven by an argsort of the input (sorter `%s`)" % sp.sorter)
-    if sp.sorter is None:
-        return
-    s = sp.sorter
-    fn = fi.node
-    # the scan start: loop counter initialised to 1 (while) or range(1, n)
-    starts_at_1 = False
-    for x in walk_no_nested(fn):
-        if isinstance(x, ast.For) and isinstance(x.iter, ast.Call) and call_name(x.iter) == "range" and len(x.iter.args) >= 2 \
-                and norm(x.iter.args[0]) == "1" and isinstance(x.target, ast.Name) and x.target.id in sp.pos_vars:
-            starts_at_1 = True
-        if isinstance(x, ast.Assign) and isinstance(x.targets[0], ast.Name) and x.targets[0].id in sp.pos_vars and norm(x.value) == "1":
-            starts_at_1 = True
-    chk.ob("R06.1", q + "::scan-starts-at-sorted-position-1", starts_at_1, fi.where(), "the scan visits sorted positions 1..n-1 (position 0 is the seed)")
-    # every subscript is applied in the matching space
-    n_sub = 0
-    for x in walk_no_nested(fn):
-        if not (isinstance(x, ast.Subscript) and isinstance(x.value, ast.Name)):
-            continue
-        base = x.value.id
-        isp = sp.index_space(x.slice)
-        if base in sp.origs:
-            n_sub += 1
-            ok = isp in ("Idx",)
-            why = {"lit": "a literal index into the *unsorted* input is not the element at sorted position %s: the scan compares against the wrong seed "
-                          "unless the input happens to start with its minimum" % norm(x.slice),
-                   "Pos": "a sorted position is used to index the unsorted input", None: "index of unknown space", "slice": "slice",
-                   "mixed": "index array holds a mixture of spaces"}.get(isp, "")
-            chk.ob("R06.1", "%s::input-indexed-in-Idx-space::%s" % (q, norm(x)), ok, fi.where(x),
-                   "`%s`: the input array must be indexed by an input index (s[pos] or an array of such)%s" % (norm(x), "" if ok else " -- " + why))
-        elif base == s or base in sp.pos_arrays:
-            n_sub += 1
-            ok = isp in ("Pos", "lit", "slice")
-            chk.ob("R06.1", "%s::sorted-indexed-in-Pos-space::%s" % (q, norm(x)), ok, fi.where(x),
-                   "`%s`: sorted-order arrays are indexed by sorted positions (index space: %s)" % (norm(x), isp))
-    chk.ob("R06.1", q + "::subscripts-typed", n_sub >= 4, fi.where(), "%d subscripts of the input / sorted arrays were typed" % n_sub)
-    # the kept-index array: one space; slot 0 seeded from sorted position 0 of that space
-    for arr, space in sp.holds.items():
-        chk.ob("R06.1", "%s::kept-array-single-space::%s" % (q, arr), space in ("Idx", "Pos"), fi.where(),
-               "all stores into `%s` are in one index space (%s)" % (arr, space))
-        alloc = [a for a in walk_no_nested(fn) if isinstance(a, ast.Assign) and norm(a.targets[0]) == arr and isinstance(a.value, ast.Call)
-                 and call_name(a.value) in ("zeros", "empty")]
-        slot0 = [a for a in walk_no_nested(fn) if isinstance(a, ast.Assign) and norm(a.targets[0]) == arr + "[0]"]
-        if space == "Idx":
-            ok = any(norm(a.value) == "%s[0]" % s for a in slot0)
-            chk.ob("R06.1", "%s::slot0-seeded-from-sorted-position-0::%s" % (q, arr), ok, fi.where(alloc[0]) if alloc else fi.where(),
-                   "`%s` holds input indices, so its slot 0 must be %s[0] (the index of the smallest element); a zero-initialised slot names input "
-                   "index 0, which is only right when the first element is the minimum" % (arr, s))
-        elif space == "Pos":
-            ok = (alloc and call_name(alloc[0].value) == "zeros" and not slot0) or any(norm(a.value) == "0" for a in slot0)
-            chk.ob("R06.1", "%s::slot0-seeded-from-sorted-position-0::%s" % (q, arr), bool(ok), fi.where(),
-                   "`%s` holds sorted positions; slot 0 is position 0 (zero initialised)" % arr)
-    # the running value is seeded from sorted position 0
-    seeds = [a for a in walk_no_nested(fn) if isinstance(a, ast.Assign) and isinstance(a.targets[0], ast.Name) and isinstance(a.value, ast.Subscript)
-             and isinstance(a.value.value, ast.Name) and (a.value.value.id in sp.origs or a.value.value.id in sp.pos_arrays)
-             and isinstance(a.value.slice, (ast.Constant, ast.Subscript))]
-    for a in seeds:
-        v = a.value
-        base = v.value.id
-        ok = (base in sp.pos_arrays and norm(v.slice) == "0") or (base in sp.origs and norm(v.slice) == "%s[0]" % s)
-        chk.ob("R06.1", "%s::seed-from-sorted-position-0::%s" % (q, norm(a.targets[0])), ok, fi.where(a),
-               "the running %s is seeded from sorted position 0 (`%s`)" % (norm(a.targets[0]), norm(a)))
-    # returned indices are in Idx space
-    for r in [x for x in walk_no_nested(fn) if isinstance(x, ast.Return) and x.value is not None]:
-        vals = r.value.elts if isinstance(r.value, ast.Tuple) else [r.value]
-        for v in vals:
-            if isinstance(v, ast.Name) and v.id in sp.holds:
-                # may have been re-bound (keep = keep[0:nkeep+1]); space unchanged
-                chk.ob("R06.1", "%s::returns-Idx::%s" % (q, v.id), sp.holds[v.id] == "Idx", fi.where(r),
-                       "returned index array `%s` holds input indices (%s)" % (v.id, sp.holds[v.id]))
-            elif isinstance(v, ast.Name) and v.id == s:
-                # s re-bound to s[keep] with keep in Pos space
-                reb = [a for a in walk_no_nested(fn) if isinstance(a, ast.Assign) and norm(a.targets[0]) == s and isinstance(a.value, ast.Subscript)
-                       and norm(a.value.value) == s]
-                ok = len(reb) == 1 and isinstance(reb[0].value.slice, ast.Name) and sp.holds.get(reb[0].value.slice.id) == "Pos"
-                chk.ob("R06.1", "%s::returns-Idx::%s" % (q, s), ok, fi.where(r), "kept sorted positions are mapped back through the sorter before being returned")
-    # scan logic: new run <=> value differs from running value; counter advances and slot written together
-    cfg = cfg_of(fi)
-    view = cfg.view()
-    for arr, space in sp.holds.items():
-        stores = [n for n in cfg.nodes if n.kind == "stmt" and isinstance(n.ast, ast.Assign) and isinstance(n.ast.targets[0], ast.Subscript)
-                  and norm(n.ast.targets[0].value) == arr and not isinstance(n.ast.targets[0].slice, ast.Constant)]
-        for n in stores:
-            ts = rules.controlling_tests(view, n)
-            neq = [t for t, lab in ts if ("!=" in t and lab == "T") or ("==" in t and lab == "F")]
-            gt = [t for t, lab in ts if ">" in t and lab == "T"]
-            chk.ob("R06.1", "%s::store-guard::%s" % (q, norm(n.ast)), bool(neq) or bool(gt), fi.where(n.ast),
-                   "`%s` happens when the value changes (new run) or a larger flag is seen (guards %s)" % (norm(n.ast), ts))
-    if fi.name == "rem_dup":
-        # largest-flag selection: within a run, replace when flag > current best; at a new run reset best
-        fl = [n for n in cfg.nodes if n.kind == "branch" and ">" in norm(n.ast.test) and "flag" in norm(n.ast.test)]
-        ok = len(fl) == 1 and isinstance(fl[0].ast.test.ops[0], ast.Gt)
-        chk.ob("R06.1", q + "::largest-flag-wins", ok, fi.where(), "within a run the kept position is replaced only by a strictly larger flag")
-        if ok:
-            # running maximum: in the arm taken for a larger flag, the remembered flag and the kept position are updated together
-            t = fl[0].ast.test
-            cur, best = norm(t.left), norm(t.comparators[0])
-            arm = [n for n in cfg.nodes if n.kind == "stmt" and any(b.id == fl[0].id and lab == "T" for b, lab in view.controlling_branches(n))]
-            upd = any(isinstance(n.ast, ast.Assign) and norm(n.ast.targets[0]) == best and norm(n.ast.value) == cur for n in arm)
-            kept = any(isinstance(n.ast, ast.Assign) and isinstance(n.ast.targets[0], ast.Subscript) for n in arm)
-            chk.ob("R06.1", q + "::running-maximum-updated-with-kept-position", upd and kept, fi.where(fl[0].ast),
-                   "when `%s` holds both the remembered best flag (`%s = %s`) and the kept position are replaced; otherwise a later, smaller flag can still displace the largest one"
-                   % (norm(t), best, cur))
-        srt = [x for x in walk_no_nested(fn) if isinstance(x, ast.Call) and call_name(x) == "sort" and isinstance(x.func, ast.Attribute)]
-        chk.ob("R06.1", q + "::sorts-own-array", all(norm(c.func.value) == s for c in srt), fi.where(), "the final sort is applied to the local index array, not an argument")
+def root_of(t):
+    """(parameter term, conversions on the way) for a chain of array normalisations / conversions, else (None, ...)"""
+    conv = []
+    while isinstance(t, tuple):
+        if t[0] in ("a1d", "asarr"):
+            t = t[1]
+        elif t[0] == "conv":
+            conv.append(t)
+            t = t[2]
+        elif t[0] == "param":
+            return t, conv
+        else:
+            break
+    return None, conv
+
+
+def raw_occurs(t, p0):
+    """does p0 occur in t other than as the operand of its clamp"""
+    if t == p0:
+        return True
+    if not isinstance(t, tuple):
+        return False
+    if t and t[0] == "clamp" and t[1] == p0:
+        return False
+    return any(raw_occurs(c, p0) for c in t if isinstance(c, tuple))
+
+
+def short(t, n=110):
+    s = show(t)
+    return s if len(s) <= n else s[: n - 3] + "..."
+
+
+def show(t):
+    """compact rendering of a term for messages"""
+    if not isinstance(t, tuple) or not t:
+        return repr(t)
+    h = t[0]
+    if h == "const":
+        return repr(t[1])
+    if h == "param":
+        return t[1]
+    if h in ("a1d", "asarr"):
+        return "%s(%s)" % ("atleast_1d" if h == "a1d" else "asarray", show(t[1]))
+    if h == "take":
+        return "%s[%s]" % (show(t[1]), show(t[2]))
+    if h == "slice":
+        return ":".join("" if x == NONE else show(x) for x in t[1:3])
+    if h == "cmp":
+        return "(%s %s %s)" % (show(t[2]), {"eq": "==", "ne": "!=", "lt": "<", "le": "<="}.get(t[1], t[1]), show(t[3]))
+    if h == "binop":
+        return "(%s %s %s)" % (show(t[2]), t[1], show(t[3]))
+    if h == "ss":
+        return "searchsorted(%s, %s%s%s)" % (show(t[1]), show(t[3]), "" if t[2] == NONE else ", sorter=" + show(t[2]),
+                                             "" if t[4] == K("left") else ", side=" + show(t[4]))
+    if h == "clamp":
+        return "clamp(%s, size(%s)-1)" % (show(t[1]), show(t[2]))
+    if h == "conv":
+        return "%s<%s>(%s)" % (t[1], show(t[3]), show(t[2]))
+    if h in ("or", "and"):
+        return "(" + (" %s " % h).join(show(x) for x in t[1:]) + ")"
+    if h == "where0":
+        return "where(%s)[0]" % show(t[1])
+    if h in ("tuple", "list"):
+        return "(" + ", ".join(show(x) for x in t[1:]) + ")"
+    return "%s(%s)" % (h, ", ".join(show(x) if isinstance(x, tuple) else str(x) for x in t[1:]))
 
 
 # ---------------------------------------------------------------------------
-def match_rules(chk, repo):
-    fi = repo.func(NU + "match")
+# facts
+# ---------------------------------------------------------------------------
+SL_NEXT = ("slice", K(1), NONE, NONE)
+SL_PREV = ("slice", NONE, K(-1), NONE)
+
+
+def neighbour_cmp(t, a):
+    """t compares every element of `a` in sorted order (base 'sorted') or as given (base 'raw') with its successor:
+    returns (relation prev?next in {'lt','le','eq','ne','gt','ge'}, base) or None"""
+    if not (isinstance(t, tuple) and t[0] == "cmp" and t[1] in ("lt", "le", "eq", "ne")):
+        return None
+    s = ("argsort", a)
+    for base, nxt, prv in (("sorted", ("take", a, ("take", s, SL_NEXT)), ("take", a, ("take", s, SL_PREV))),
+                           ("raw", ("take", a, SL_NEXT), ("take", a, SL_PREV))):
+        if (t[2], t[3]) == (prv, nxt):
+            return t[1], base
+        if (t[2], t[3]) == (nxt, prv):
+            return {"lt": "gt", "le": "ge"}.get(t[1], t[1]), base
+    if t[1] in ("lt", "le", "eq", "ne"):
+        for base, x in (("sorted", ("take", a, s)), ("raw", a)):
+            d = ("diff", x)
+            if t[2] == K(0) and t[3] == d and t[1] in ("lt", "le"):       # 0 < diff
+                return t[1], base
+            if t[3] == K(0) and t[2] == d and t[1] in ("lt", "le"):       # diff < 0
+                return {"lt": "gt", "le": "ge"}[t[1]], base
+            if t[1] in ("eq", "ne") and {t[2], t[3]} == {K(0), d}:
+                return t[1], base
+    return None
+
+
+def fact_kind(t, v, a1, a2, pres):
+    """classify one atomic path fact: 'unique' (the first array has no repeated value), 'nonempty1' / 'nonempty2', 'noexceed'
+    (no element of the second array exceeds the first array's maximum), 'other' (understood, none of these), None (not understood)"""
+    h = t[0]
+    n1, n2 = ("size", a1), ("size", a2)
+    if h == "cmp":
+        op, l, r = t[1:]
+        u = ("size", ("unique", a1))
+        if {l, r} == {u, n1}:
+            if (op == "eq" and v) or (op == "ne" and not v):
+                return "unique"
+            if op == "lt" and (l, r) == (u, n1) and not v:
+                return "unique"
+            if op == "le" and (l, r) == (n1, u) and v:
+                return "unique"
+            return "other"
+        for n, tag in ((n1, "nonempty1"), (n2, "nonempty2")):
+            if {l, r} == {n, K(0)}:
+                if (op == "eq" and not v) or (op == "ne" and v) or (op == "lt" and l == K(0) and v) or (op == "le" and l == n and not v):
+                    return tag
+                return "other"
+            if {l, r} == {n, K(1)}:
+                if (op == "lt" and l == n and not v) or (op == "le" and l == K(1) and v):
+                    return tag
+                return "other"
+        for both in (("call", "minimum", (n1, n2)), ("call", "minimum", (n2, n1)), ("binop", "*", n1, n2), ("binop", "*", n2, n1)):
+            if {l, r} == {both, K(0)}:
+                if (op == "eq" and not v) or (op == "ne" and v) or (op == "lt" and l == K(0) and v) or (op == "le" and l == both and not v):
+                    return "nonempty1+nonempty2"
+                return "other"
+        m1, m2 = ("max", a1), ("max", a2)
+        if {l, r} == {m1, m2}:
+            if (op == "lt" and l == m1 and not v) or (op == "le" and l == m2 and v) or (op == "le" and l == m1 and not v) or (op == "lt" and l == m2 and v):
+                return "noexceed"
+            return "other"
+        if any(x[0] in ("dtype", "isinstance", "max", "min") for x in (l, r)):
+            return "other"
+        if not contains(t, a1) and not contains(t, a2):
+            return "other"
+        return None
+    if h in (n1[0],) and t in (n1, n2):
+        return ("nonempty1" if t == n1 else "nonempty2") if v else "other"
+    if h in ("all", "any"):
+        nc = neighbour_cmp(t[1], a1)
+        if nc is not None:
+            rel, base = nc
+            if base == "sorted" or pres:
+                if (h == "all" and v and rel in ("lt", "ne")) or (h == "any" and not v and rel in ("eq", "ge")):
+                    return "unique"
+                if h == "all" and v and rel == "gt" and base == "raw":
+                    return "unique"
+            return "other"          # a sortedness test, or a neighbour test that does not exclude equal neighbours
+        return None if contains(t, a1) else "other"
+    if h == "isinstance" or h == "param":
+        return "other"
+    if h in ("or", "and"):
+        # a disjunction that held / a conjunction that failed: nothing follows for the single operands
+        ks = [fact_kind(x, tv, a1, a2, pres) for x in t[1:] for tv in (True, False)]
+        return None if any(k is None for k in ks) else "other"
+    if not contains(t, a1) and not contains(t, a2):
+        return "other"
+    return None
+
+
+# ---------------------------------------------------------------------------
+# match
+# ---------------------------------------------------------------------------
+def match_rules(chk, mod):
+    fi = mod.func("match")
     chk.analysed_unit(fi.qualname)
     q = fi.qualname
     fn = fi.node
-    cfg = cfg_of(fi)
-    view = cfg.view()
-    env = {}
-    for a in sorted([x for x in walk_no_nested(fn) if isinstance(x, ast.Assign)], key=lambda x: x.lineno):
-        for t in a.targets:
-            for tt in (t.elts if isinstance(t, ast.Tuple) else [t]):
-                env.setdefault(norm(tt), []).append(a)
-    a1 = _conv_of(env, fi.params[0])
-    a2 = _conv_of(env, fi.params[1])
-    chk.ob("R06.2", q + "::scalars-accepted", a1 is not None and a2 is not None, fi.where(), "both inputs pass numpy.atleast_1d (scalars accepted): %s, %s" % (a1, a2))
-    if a1 is None or a2 is None:
+    if len(fi.params) < 2:
+        chk.ob("R06.2", q + "::recognised", None, fi.where(), "match takes two arrays")
         return
-    # the values compared are the caller's values: after normalisation the two arrays are never re-bound to a converted copy
-    # (a dtype conversion truncates strings / wraps integers, and equality of the converted values is not equality of the inputs)
-    for nm in (a1, a2):
-        extra = []
-        for d in env.get(nm, [])[1:]:
-            v = d.value
-            keep = isinstance(v, ast.Call) and call_name(v) in ("ravel", "reshape", "atleast_1d", "asarray", "asanyarray", "squeeze", "flatten") \
-                and not any(k.arg == "dtype" for k in v.keywords) and len(v.args) <= 1
-            if not keep:
-                extra.append(norm(d)[:80])
-        chk.ob("R06.2", q + "::compared-values-are-the-inputs::" + nm, not extra, fi.where(),
-               "`%s` keeps the caller's values and type up to the equality test (no conversion in between)%s" % (nm, "" if not extra else ": re-bound by `%s`" % extra[0]))
-    # uniqueness guard
-    ss = [(n, c) for n in cfg.nodes for c in rules.stmts_calls(n) if call_name(c) == "searchsorted"]
-    chk.ob("R06.2", q + "::single-search", len(ss) == 1, fi.where(), "one searchsorted call")
-    if len(ss) != 1:
-        return
-    sn, sc = ss[0]
-    guard = None
-    for n in rules.raise_nodes(cfg):
-        for t, lab in rules.controlling_tests(view, n):
-            tt = t.replace(" ", "")
-            for u, defs in env.items():
-                if any(isinstance(d.value, ast.Call) and call_name(d.value) == "unique" and d.value.args and norm(d.value.args[0]) == a1 for d in defs):
-                    if tt in ("%s.size!=%s.size" % (u, a1), "%s.size!=%s.size" % (a1, u), "%s.size<%s.size" % (u, a1)) and lab == "T":
-                        guard = n
-    chk.ob("R06.2", q + "::uniqueness-guard", guard is not None, fi.where(), "a first array with repeated values is rejected (unique(a1).size != a1.size -> raise)")
-    if guard is not None:
-        b = view.controlling_branches(guard)[0][0]
-        chk.ob("R06.2", q + "::guard-dominates-search", view.dominates(b, sn), fi.where(sn.ast), "the uniqueness test dominates the search")
-    # search arguments
-    sorter = kwarg(sc, "sorter")
-    ok = len(sc.args) >= 2 and norm(sc.args[0]) == a1 and norm(sc.args[1]) == a2
-    chk.ob("R06.2", q + "::search-roles", ok, fi.where(sc), "searchsorted(first array, second array, ...): %s" % norm(sc))
-    side = kwarg(sc, "side")
-    chk.ob("R06.2", q + "::search-side-left", side is None or norm(side) == "'left'", fi.where(sc), "left-side search (an equal element is found at its own position)")
-    st = norm(sorter) if sorter is not None else None
-    # sorter provenance under presorted False/True
+    p1, p2 = fi.params[0], fi.params[1]
+    flag = "presorted" if "presorted" in fi.params else (fi.params[2] if len(fi.params) > 2 else None)
+    a1, a2 = ("a1d", ("param", p1)), ("a1d", ("param", p2))
+    V = Verdicts()
     for pres in (False, True):
-        v = cfg.specialise(flags={"presorted": pres})
-        IN, _ = v.reaching_defs()
-        vals = set()
-        if st is not None:
-            for d in IN[sn.id].get(st, ()):
-                dn = cfg.node(d)
-                vals.add(norm(dn.ast.value) if isinstance(dn.ast, ast.Assign) else "?")
-        want = {"np.argsort(%s)" % a1, "%s.argsort()" % a1} if not pres else {"None"}
-        chk.ob("R06.2", "%s::sorter[presorted=%s]" % (q, pres), (st is not None and vals <= want and bool(vals)) or (st is None and pres), fi.where(sc),
-               "presorted=%s: sorter is %s" % (pres, sorted(vals)))
-    res = [norm(t) for a in [sn.ast] if isinstance(a, ast.Assign) for t in a.targets]
-    if not res:
-        raise AnalysisError("searchsorted result is not bound to a name")
-    r = res[0]
-    # clamp: r[bad] = a1.size - 1 with bad = where(r == a1.size)
-    clamps = [n for n in cfg.nodes if n.kind == "stmt" and isinstance(n.ast, ast.Assign) and isinstance(n.ast.targets[0], ast.Subscript)
-              and norm(n.ast.targets[0].value) == r]
-    okc = False
-    cl = None
-    for n in clamps:
-        idx = norm(n.ast.targets[0].slice)
-        val = norm(n.ast.value).replace(" ", "")
-        defs = env.get(idx, [])
-        cond_ok = any(isinstance(d.value, ast.Call) and call_name(d.value) == "where" and norm(d.value.args[0]).replace(" ", "") in
-                      ("%s==%s.size" % (r, a1), "%s>=%s.size" % (r, a1)) for d in defs)
-        if cond_ok and val == "%s.size-1" % a1:
-            okc = True
-            cl = n
-    chk.ob("R06.2", q + "::high-end-clamp", okc, fi.where(), "positions equal to the array size are clamped to size-1 before use")
-    if cl is not None:
-        ts = rules.controlling_tests(view, cl, skip_reject_guards=True)
-        okg = all((("is_string" in t or ".max()" in t) and lab == "T") for t, lab in ts)
-        # the guard may only skip the clamp when no element of a2 exceeds max(a1)
-        for t, lab in ts:
-            tt = t.replace(" ", "")
-            okg = okg and (tt in ("is_stringor%s.max()>%s.max()" % (a2, a1), "%s.max()>%s.max()oris_string" % (a2, a1), "%s.max()>%s.max()" % (a2, a1),
-                                  "%s.max()>=%s.max()" % (a2, a1), "is_stringor%s.max()>=%s.max()" % (a2, a1)))
-        chk.ob("R06.2", q + "::clamp-guard", okg, fi.where(cl.ast),
-               "the clamp is skipped only when no element of the second array can exceed the first array's maximum (guard %s)" % ts)
-        # uses of r as subscript of a1 / sorter come after the clamp construct
-        cb = view.controlling_branches(cl)
-        anchor = cb[0][0] if cb else cl
-        for n in cfg.nodes:
-            if n.ast is None or n is cl:
-                continue
-            roots = [n.ast.test] if n.kind == "branch" else ([n.ast] if n.kind in ("stmt", "return") else [])
-            for root in roots:
-                for x in ast.walk(root):
-                    if isinstance(x, ast.Subscript) and norm(x.value) in (a1, st) and r in {y.id for y in ast.walk(x.slice) if isinstance(y, ast.Name)}:
-                        chk.ob("R06.2", "%s::clamp-before-use::%s" % (q, norm(x)), view.dominates(anchor, n) and anchor is not n, fi.where(n.ast),
-                               "`%s` subscripts with the search result only after the clamp" % norm(x))
-    # equality filter and mapping through the sorter
-    for pres in (False, True):
-        v = cfg.specialise(flags={"presorted": pres})
-        nodes = v.nodes()
-        eqs = []
-        for n in nodes:
-            a = n.ast
-            if n.kind == "stmt" and isinstance(a, ast.Assign) and isinstance(a.value, ast.Call) and call_name(a.value) == "where" and a.value.args:
-                c = a.value.args[0]
-                if isinstance(c, ast.Compare) and isinstance(c.ops[0], ast.Eq) and a2 in (norm(c.left), norm(c.comparators[0])):
-                    eqs.append((n, c))
-        want_lhs = "%s[%s]" % (a1, r) if pres else "%s[%s[%s]]" % (a1, st, r)
-        ok = len(eqs) == 1 and {norm(eqs[0][1].left), norm(eqs[0][1].comparators[0])} == {want_lhs, a2}
-        chk.ob("R06.2", "%s::equality-filter[presorted=%s]" % (q, pres), ok, fi.where(eqs[0][0].ast) if eqs else fi.where(),
-               "pairs are kept where %s == %s (found %s)" % (want_lhs, a2, [norm(e[1]) for e in eqs]))
-        if len(eqs) == 1:
-            sub2 = norm(eqs[0][0].ast.targets[0].elts[0]) if isinstance(eqs[0][0].ast.targets[0], ast.Tuple) else norm(eqs[0][0].ast.targets[0])
-            fin = [n for n in nodes if n.kind == "stmt" and isinstance(n.ast, ast.Assign) and norm(n.ast.targets[0]) == r and n is not sn and view.reaches(eqs[0][0], n)]
-            want = "%s[%s]" % (r, sub2) if pres else "%s[%s[%s]]" % (st, r, sub2)
-            ok = len(fin) == 1 and norm(fin[0].ast.value) == want
-            chk.ob("R06.2", "%s::first-indices[presorted=%s]" % (q, pres), ok, fi.where(),
-                   "indices into the first array are %s (found %s)" % (want, [norm(f.ast.value) for f in fin]))
-            rets = [n for n in nodes if n.kind == "return"]
-            ok = len(rets) >= 1 and all(norm(n.ast.value) == "(%s, %s)" % (r, sub2) for n in rets)
-            chk.ob("R06.2", "%s::returns-pairs[presorted=%s]" % (q, pres), ok, fi.where(), "returns (indices into first, indices into second) with the second ascending as produced by where()")
-    # empty input rejected
-    ok = any(any(".size == 0" in t and lab == "T" for t, lab in rules.controlling_tests(view, n)) for n in rules.raise_nodes(cfg))
-    chk.ob("R06.2", q + "::empty-rejected", ok, fi.where(), "empty inputs are rejected")
-    mm = repo.func(NU + "match_multi")
+        sx = SX(mod.defs)
+        try:
+            paths = sx.run(fn, {flag: K(pres)} if flag else {})
+        except Unsupported as e:
+            chk.ob("R06.2", q + "::recognised", None, fi.where(), "match could not be executed symbolically (%s)" % e)
+            return
+        rets = [p for p in paths if p.kind == "return"]
+        V.add("returns[presorted=%s]" % pres, bool(rets) or None, "match has a returning path", fi.where())
+        for p in rets:
+            _match_path(V, fi, p, pres, a1, a2)
+        if not flag:
+            break
+    V.emit(chk, "R06.2", q)
+    mm = mod.func("match_multi")
     chk.analysed_unit(mm.qualname)
-    rets = [x for x in walk_no_nested(mm.node) if isinstance(x, ast.Return)]
-    ok = len(rets) == 1 and isinstance(rets[0].value, ast.Call) and call_name(rets[0].value) == "match" and \
-        [norm(a) for a in rets[0].value.args[:2]] == mm.params[:2]
+    ok = None
+    try:
+        paths = [p for p in SX(mod.defs, keep_calls=("match",)).run(mm.node, {}) if p.kind == "return"]
+        want = tuple(("param", x) for x in mm.params[:2])
+        ok = bool(paths) and all(p.value[0] == "call" and p.value[1] == "match" and p.value[2][:2] == want for p in paths)
+    except Unsupported:
+        ok = False
     chk.ob("R06.3", mm.qualname + "::delegates", ok, mm.where(), "match_multi delegates to match with the same two arrays")
 
 
-def _conv_of(env, param):
-    for name, defs in env.items():
-        for d in defs:
-            if isinstance(d.value, ast.Call) and call_name(d.value) == "atleast_1d" and d.value.args and norm(d.value.args[0]) == param:
-                return name
+def _match_path(V, fi, p, pres, a1, a2):
+    tag = "[presorted=%s]" % pres
+    w = "%s:%s" % (fi.where().rsplit(":", 1)[0], p.line)
+    wf = fi.where()
+    s = ("argsort", a1)
+    kinds = [(t, v, fact_kind(t, v, a1, a2, pres)) for t, v, _ in p.facts]
+
+    def guard(kind, key, msg, mention):
+        if any(k is not None and kind in k.split("+") for _, _, k in kinds):
+            V.add(key, True, msg, wf)
+            return
+        unk = [t for t, v, k in kinds if k is None and contains(t, mention)]
+        if unk:
+            V.add(key, None, msg + " -- a test on this path is not understood: %s" % short(unk[0]), wf)
+        else:
+            V.add(key, False, msg + " -- the path returning at line %d passes no such test (tests passed: %s)"
+                  % (p.line, "; ".join("%s is %s" % (short(t, 60), v) for t, v, _ in kinds) or "none"), wf)
+
+    guard("unique", "uniqueness-guard" + tag, "a first array with repeated values is rejected before pairs are returned (unique(a1).size == a1.size, "
+          "or strictly increasing neighbours in sorted order)", a1)
+    guard("nonempty1", "empty-rejected::first", "an empty first array is rejected", ("size", a1))
+    guard("nonempty2", "empty-rejected::second", "an empty second array is rejected", ("size", a2))
+
+    r = p.value
+    if r[0] == "tuple" and len(r) == 3 and r[1][0] == "where0" and r[2][0] != "where0":
+        V.add("returns-pairs" + tag, False, "returns (indices into first, indices into second) in this order; found %s" % short(r), w)
+        return
+    if not (r[0] == "tuple" and len(r) == 3):
+        V.add("returns-pairs" + tag, False if r[0] in ("tuple", "const") else None, "returns (indices into first, indices into second); found %s" % short(r), w)
+        return
+    V.add("returns-pairs" + tag, True, "returns (indices into first, indices into second)", w)
+    i1, i2 = r[1], r[2]
+    # -- the equality filter ------------------------------------------------
+    key = "equality-filter" + tag
+    msg = "pairs are the positions (ascending, as produced by where) at which <first array at the found index> == <second array>"
+    if not (i2[0] == "where0" and i2[1][0] == "cmp"):
+        V.add(key, None, msg + "; the second index array is %s" % short(i2), w)
+        return
+    op, l, rr = i2[1][1:]
+    if op != "eq":
+        V.add(key, False, msg + "; found the comparison %s" % short(i2[1]), w)
+        return
+    y = x = None
+    for cand, other in ((l, rr), (rr, l)):
+        rt, conv = root_of(cand)
+        if rt == ("param", fi.params[1]) and other[0] == "take":
+            y, x = cand, other
+    if y is None:
+        V.add(key, None, msg + "; operands not recognised: %s" % short(i2[1]), w)
+        return
+    kv = "compared-values-are-the-inputs::"
+    mv = "the %s array keeps the caller's values and type up to the search and the equality test (no conversion in between)"
+    if y == a2:
+        V.add(kv + "second", True, mv % "second", w)
+        V.add("scalars-accepted::second", True, "the second input passes numpy.atleast_1d (scalars accepted)", wf)
+    elif root_of(y)[1]:
+        V.add(kv + "second", False, (mv % "second") + ": compared as %s" % short(y), w)
+    elif y[0] == "asarr" or y[0] == "param":
+        V.add("scalars-accepted::second", False, "the second input passes numpy.atleast_1d (scalars accepted); found %s" % short(y), wf)
+    else:
+        V.add(kv + "second", None, (mv % "second") + ": compared as %s" % short(y), w)
+    b, c = x[1], x[2]
+    rt, conv = root_of(b)
+    if b == a1:
+        V.add(kv + "first", True, mv % "first", w)
+        V.add("scalars-accepted::first", True, "the first input passes numpy.atleast_1d (scalars accepted)", wf)
+    elif rt == ("param", fi.params[0]) and conv:
+        V.add(kv + "first", False, (mv % "first") + ": compared as %s" % short(b), w)
+    elif rt == ("param", fi.params[0]):
+        V.add("scalars-accepted::first", False, "the first input passes numpy.atleast_1d (scalars accepted); found %s" % short(b), wf)
+    else:
+        V.add(key, None, msg + "; the subscripted array is %s" % short(b), w)
+        return
+    # -- the search ------------------------------------------------------------
+    sss = {t for t in subterms(r) if isinstance(t, tuple) and t and t[0] == "ss"}
+    if len(sss) != 1:
+        V.add("single-search" + tag, None, "the returned pairs derive from one sorted search (found %d)" % len(sss), w)
+        return
+    V.add("single-search" + tag, True, "the returned pairs derive from one sorted search", w)
+    p0 = next(iter(sss))
+    _, sa, sorter, sv, side = p0
+    lines = [e[2] for e in p.events if e[0] == "ss" and e[1] == p0]
+    ws = "%s:%s" % (wf.rsplit(":", 1)[0], lines[0]) if lines else w
+    if sa == a1 and sv == a2:
+        ok = True
+    elif (sa == a2 and sv == a1) or root_of(sa)[1] or root_of(sv)[1]:
+        ok = False
+    else:
+        ok = None
+    V.add("search-roles" + tag, ok, "searchsorted(first array, second array, ...) on the unconverted inputs: %s" % short(p0), ws)
+    if ok is not True:
+        return
+    V.add("search-side-left" + tag, True if side == K("left") else (False if is_const(side) else None),
+          "left-side search (an equal element is found at its own position): side=%s" % show(side), ws)
+    if sorter == s:
+        oks = True
+    elif sorter == NONE:
+        oks = True if pres else False
+    else:
+        oks = None
+    V.add("sorter" + tag, oks, "presorted=%s: the search runs over the first array %s (sorter %s)"
+          % (pres, "as given or through its argsort" if pres else "through its argsort", show(sorter)), ws)
+    if oks is not True:
+        return
+    mapped = sorter == s
+    pc = ("clamp", p0, a1)
+    found = None
+    for cand in (pc, p0):
+        if c == (t_take(s, cand) if mapped else cand):
+            found = cand
+    if found is None:
+        if any(isinstance(t, tuple) and t and t[0] == "badclamp" for t in subterms(c)):
+            V.add("high-end-clamp" + tag, False, "positions equal to the array size are clamped to size-1 before use; found %s" % short(c), w)
+        elif mapped and c in (pc, p0):
+            V.add(key, False, msg + "; the first array is subscripted with sorted positions that were not mapped through the sorter: %s" % short(x), w)
+        else:
+            V.add(key, None, msg + "; the subscript of the first array is %s" % short(c), w)
+        return
+    V.add(key, True, msg, w)
+    # -- first indices -------------------------------------------------------
+    kf = "first-indices" + tag
+    mf = "indices into the first array are the found %s filtered by the equality test" % ("positions mapped through the sorter" if mapped else "positions")
+    if i1 == t_take(c, i2):
+        V.add(kf, True, mf, w)
+    elif i1 in (c, found, t_take(found, i2)):
+        V.add(kf, False, mf + "; found %s" % short(i1), w)
+    else:
+        V.add(kf, None, mf + "; found %s" % short(i1), w)
+    # -- the clamp -----------------------------------------------------------
+    kc = "high-end-clamp" + tag
+    mc = "positions equal to the array size are clamped to size-1 before they subscript the first array or its sorter, unless no element of the " \
+         "second array can exceed the first array's maximum"
+    if found == pc:
+        V.add(kc, True, mc, w)
+        early = [e for e in p.events if e[0] == "take" and e[1][0] == "take" and e[1][1] in (a1, s) and raw_occurs(e[1][2], p0)]
+        V.add("clamp-before-use" + tag, not early, "the search result subscripts the first array / its sorter only after the clamp%s"
+              % ("" if not early else ": `%s` at line %d" % (short(early[0][1]), early[0][2])), w)
+    else:
+        if any(k == "noexceed" for _, _, k in kinds):
+            V.add("clamp-guard" + tag, True, "the clamp is skipped only when no element of the second array can exceed the first array's maximum", w)
+        else:
+            unk = [t for t, v, k in kinds if k is None]
+            V.add(kc, None if unk else False, mc + ("; not understood: %s" % short(unk[0]) if unk else
+                                                  "; the path returning at line %d uses the unclamped search result" % p.line), w)
+
+
+# ---------------------------------------------------------------------------
+# de-duplication helpers
+# ---------------------------------------------------------------------------
+def dedup_rules(chk, mod, fi, narr):
+    loops = [x for x in walk_no_nested(fi.node) if isinstance(x, (ast.For, ast.While, ast.AsyncFor))]
+    if loops:
+        _scan_dedup(chk, fi, narr)
+    else:
+        _vector_dedup(chk, mod, fi, narr)
+
+
+# -- loop-free (vectorised) form: decided on the terms of the returned arrays --------------------------------------------------
+def _vector_dedup(chk, mod, fi, narr):
+    q = fi.qualname
+    if narr != 1:
+        chk.ob("R06.1", q + "::recognised", None, fi.where(), "a loop-free flagged de-duplication is not a form this check knows")
+        return
+    a = ("param", fi.params[0])
+    vflag = "values" if "values" in fi.params else (fi.params[narr] if len(fi.params) > narr else None)
+    V = Verdicts()
+    for vals in (False, True):
+        try:
+            paths = SX(mod.defs).run(fi.node, {vflag: K(vals)} if vflag else {})
+        except Unsupported as e:
+            chk.ob("R06.1", q + "::recognised", None, fi.where(), "%s could not be executed symbolically (%s)" % (fi.name, e))
+            return
+        rets = [p for p in paths if p.kind == "return"]
+        V.add("returns[values=%s]" % vals, bool(rets) or None, "has a returning path", fi.where())
+        for p in rets:
+            w = "%s:%s" % (fi.where().rsplit(":", 1)[0], p.line)
+            r = p.value
+            if r[0] == "take" and r[1] == a:
+                r = r[2]                 # the values at the kept indices
+            _vector_kept(V, r, a, w)
+        if not vflag:
+            break
+    V.emit(chk, "R06.1", q)
+
+
+def _pos_runstarts(t, a):
+    """what sorted positions does t denote: 'all' run starts (position 0 included), 'rest' (run starts other than position 0),
+    'offby1' (the positions *before* a value change), None"""
+    if not isinstance(t, tuple) or not t:
+        return None
+    m = t[1] if t[0] == "where0" else t         # x[where(mask)[0]] and x[mask] are the same selection
+    if neighbour_cmp(m, a) == ("ne", "sorted"):
+        return "offby1"
+    if neighbour_cmp(m, a) == ("ne", "raw"):
+        return "unsorted"
+    if t[0] == "binop" and t[1] == "+" and t[3] == K(1) and _pos_runstarts(t[2], a) in ("offby1", "unsorted"):
+        return "rest" if _pos_runstarts(t[2], a) == "offby1" else "unsorted"
+    if t[0] == "concat" and len(t) == 3:
+        first = t[1][1] if t[1][0] == "arr" else t[1]
+        if first in (("list", K(0)), ("tuple", K(0))) and _pos_runstarts(t[2], a) == "rest":
+            return "all"
+        if first in (("list", K(True)), ("tuple", K(True))) and neighbour_cmp(t[2], a) == ("ne", "sorted"):
+            return "all"             # boolean mask over sorted positions
+    if t[0] == "where0":
+        return "all" if _pos_runstarts(t[1], a) == "all" and t[1][0] == "concat" else None
     return None
+
+
+def _vector_kept(V, r, a, w):
+    s = ("argsort", a)
+    k0 = "slot0-seeded-from-sorted-position-0"
+    m0 = "the first kept index is the sorter's first entry (the index of the smallest element), not input index 0"
+    kr = "run-starts"
+    mr = "the other kept entries are the sorted positions p >= 1 whose value differs from the value at p-1, mapped through the sorter"
+    ki = "returns-Idx"
+    mi = "the returned index array holds input indices (sorted positions mapped through the sorter)"
+
+    def rest_of(t):
+        """verdict for a term that must be sorter[<run starts other than 0>]"""
+        if t[0] == "take" and t[1] == s:
+            k = _pos_runstarts(t[2], a)
+            if k == "rest":
+                return True, True
+            if k in ("offby1", "unsorted"):
+                return False, True
+            return None, True
+        k = _pos_runstarts(t, a)
+        if k in ("rest", "offby1", "unsorted"):
+            return (True if k == "rest" else False), False     # positions, not mapped through the sorter
+        return None, None
+
+    # sorter[<all run starts>]
+    if r[0] == "take" and r[1] == s:
+        k = _pos_runstarts(r[2], a)
+        if k == "all":
+            V.add(k0, True, m0, w)
+            V.add(kr, True, mr, w)
+            V.add(ki, True, mi, w)
+            return
+        V.add(kr, False if k in ("rest", "offby1", "unsorted") else None, mr + "; found %s" % short(r), w)
+        return
+    if _pos_runstarts(r, a) is not None:
+        V.add(ki, False, mi + "; found sorted positions %s" % short(r), w)
+        return
+    slot0 = rest = None
+    alloc = None
+    if r[0] == "concat" and len(r) == 3:
+        first = r[1][1] if r[1][0] == "arr" else r[1]
+        if first[0] in ("list", "tuple") and len(first) == 2:
+            slot0, rest = first[1], r[2]
+        elif first == ("take", s, ("slice", NONE, K(1), NONE)) or first == ("take", s, ("slice", K(0), K(1), NONE)):
+            slot0, rest = ("take", s, K(0)), r[2]
+    else:
+        t = r
+        stores = []
+        while t[0] == "setitem":
+            stores.append((t[2], t[3]))
+            t = t[1]
+        if t[0] == "alloc" and stores:
+            alloc = t
+            for idx, val in stores:
+                if idx == K(0) and slot0 is None:
+                    slot0 = val
+                elif idx == SL_NEXT and rest is None:
+                    rest = val
+                else:
+                    rest = rest or ("opaque", "store")
+                    slot0 = slot0
+            if slot0 is None:
+                slot0 = K(0) if alloc[1] == "zeros" else ("uninitialised",)
+    if rest is None:
+        V.add("recognised", None, "the returned array is one index per run of equal values in sorted order; found %s" % short(r), w)
+        return
+    ok, mapped = rest_of(rest)
+    if ok is None:
+        V.add(kr, None, mr + "; found %s" % short(rest), w)
+        return
+    V.add(kr, ok, mr + ("" if ok else "; found %s (value changes must be looked for between neighbours in sorted order, and the run starts one "
+                             "position after the change)" % short(rest)), w)
+    V.add(ki, bool(mapped), mi + ("" if mapped else "; found %s" % short(rest)), w)
+    if slot0 == ("take", s, K(0)):
+        V.add(k0, True, m0, w)
+    elif is_const(slot0) or slot0 == ("uninitialised",):
+        V.add(k0, (not mapped) and slot0 == K(0), m0 + "; found %s" % short(slot0), w)
+    else:
+        V.add(k0, None, m0 + "; found %s" % short(slot0), w)
+    if alloc is not None:
+        n = alloc[2]
+        if n[0] == "tuple" and len(n) == 2:
+            n = n[1]
+        want = rest[2] if rest[0] == "take" else rest
+        V.add("kept-array-size", True if n == t_binop("+", t_size(want), K(1)) or (n[0] == "binop" and n[1] == "+" and n[3] == K(1) and n[2][0] == "size") else None,
+              "the kept array has one slot per run (number of value changes + 1); found %s" % short(n), w)
+
+
+# -- scan loops: index-space typing over expression descriptors -----------------------------------------------------------------
+class _Ren(ast.NodeTransformer):
+    def __init__(self, cur):
+        self.cur = cur
+
+    def visit_Name(self, n):
+        if isinstance(n.ctx, (ast.Load, ast.Del)) and n.id in self.cur:
+            n.id = self.cur[n.id]
+        return n
+
+    def visit_Lambda(self, n):
+        return n
+
+
+def ssa_toplevel(fn):
+    """copy of fn in which names that are only ever (re)bound by plain assignments at the top level of the body get one name per binding
+    (x, x@2, ...): a straight-line re-binding such as `keep = keep[0:n]` then introduces a fresh single-definition name"""
+    fn = copy.deepcopy(fn)
+    top, nested, other = {}, set(), set()
+    for st in fn.body:
+        if isinstance(st, ast.Assign) and len(st.targets) == 1 and isinstance(st.targets[0], ast.Name):
+            top[st.targets[0].id] = top.get(st.targets[0].id, 0) + 1
+            kids = [st.value]
+        else:
+            kids = [st]
+        for k in kids:
+            for x in walk_no_nested(k):
+                if isinstance(x, ast.Name) and isinstance(x.ctx, (ast.Store, ast.Del)):
+                    other.add(x.id)
+                elif isinstance(x, ast.ExceptHandler) and x.name:
+                    other.add(x.name)
+    params = {x.arg for x in fn.args.posonlyargs + fn.args.args + fn.args.kwonlyargs}
+    multi = {n for n, c in top.items() if n not in other and (c >= 2 or (n in params and c >= 1))}
+    cur = {}
+    count = {n: (1 if n in params else 0) for n in multi}
+    for st in fn.body:
+        _Ren(cur).visit(st)
+        if isinstance(st, ast.Assign) and len(st.targets) == 1 and isinstance(st.targets[0], ast.Name) and st.targets[0].id in multi:
+            n = st.targets[0].id
+            count[n] += 1
+            if count[n] > 1:
+                cur[n] = "%s@%d" % (n, count[n])
+                st.targets[0].id = cur[n]
+    return fn
+
+
+class _Fwd(ast.NodeTransformer):
+    """forward substitution of single-definition temporaries"""
+
+    def __init__(self, sd, depth):
+        self.sd = sd
+        self.depth = depth
+
+    def visit_Name(self, n):
+        if isinstance(n.ctx, ast.Load) and n.id in self.sd and self.depth > 0:
+            return _Fwd({k: w for k, w in self.sd.items() if k != n.id}, self.depth - 1).visit(copy.deepcopy(self.sd[n.id]))
+        return n
+
+    def visit_Lambda(self, n):
+        return n
+
+
+_ALLOC = ("zeros", "empty", "ones", "zeros_like", "empty_like")
+
+
+def _cname(c):
+    f = c.func
+    return f.id if isinstance(f, ast.Name) else (f.attr if isinstance(f, ast.Attribute) else None)
+
+
+def _is_np(c):
+    return isinstance(c.func, ast.Attribute) and isinstance(c.func.value, ast.Name) and c.func.value.id in ("np", "numpy")
+
+
+class Scan:
+    def __init__(self, fi, narr):
+        self.fi = fi
+        self.fn = ssa_toplevel(fi.node)
+        self.key = fi.params[0]
+        self.flagp = fi.params[1] if narr == 2 else None
+        self.inputs = set(fi.params[:narr])
+        self.loop = None
+        self.counter = None
+        self.start = None
+        # single-definition temporaries are substituted forward, except index containers (their identity matters: they are stored into)
+        self.sd = {k: v for k, v in rules.single_defs(self.fn).items()
+                   if not ((isinstance(v, ast.Call) and (_cname(v) in _ALLOC or (_cname(v) == "list" and not v.args))) or isinstance(v, ast.List))}
+        self.inloop = set()
+        self.defs = {}          # name -> [(value expr | ('aug', op, expr) | None, stmt)]
+        for x in walk_no_nested(self.fn):
+            if isinstance(x, ast.Assign):
+                for t in x.targets:
+                    if isinstance(t, ast.Name):
+                        self.defs.setdefault(t.id, []).append((x.value, x))
+                    elif isinstance(t, (ast.Tuple, ast.List)):
+                        for tt in ast.walk(t):
+                            if isinstance(tt, ast.Name):
+                                self.defs.setdefault(tt.id, []).append((None, x))
+            elif isinstance(x, ast.AugAssign) and isinstance(x.target, ast.Name):
+                self.defs.setdefault(x.target.id, []).append((("aug", type(x.op).__name__, x.value), x))
+            elif isinstance(x, (ast.For, ast.comprehension)):
+                for tt in ast.walk(x.target):
+                    if isinstance(tt, ast.Name):
+                        self.defs.setdefault(tt.id, []).append((None, x))
+        self._cls = {}
+        self._busy = set()
+
+    def X(self, e):
+        return _Fwd(self.sd, 6).visit(copy.deepcopy(e))
+
+    def where(self, node=None):
+        return self.fi.where(node)
+
+    # -- the scan loop ---------------------------------------------------
+    def find_loop(self):
+        loops = [x for x in walk_no_nested(self.fn) if isinstance(x, (ast.For, ast.While))]
+        if len(loops) != 1:
+            return "%d loops" % len(loops)
+        lp = loops[0]
+        self.loop = lp
+        self.inloop = {id(x) for st in lp.body for x in ast.walk(st)}
+        if isinstance(lp, ast.For):
+            it = self.X(lp.iter)
+            if not (isinstance(lp.target, ast.Name) and isinstance(it, ast.Call) and _cname(it) in ("range", "xrange", "arange") and 1 <= len(it.args) <= 2
+                    and not it.keywords):
+                return "the loop is not a counted loop over range(...)"
+            self.counter = lp.target.id
+            self.start = 0 if len(it.args) == 1 else (it.args[0].value if isinstance(it.args[0], ast.Constant) else None)
+            self.bound = it.args[-1]
+        else:
+            t = self.X(lp.test)
+            if not (isinstance(t, ast.Compare) and len(t.ops) == 1):
+                return "the loop test is not a comparison"
+            l, r, op = lp.test.left, lp.test.comparators[0], t.ops[0]
+            if isinstance(l, ast.Name) and isinstance(op, (ast.Lt, ast.NotEq)) and len(self.defs.get(l.id, [])) >= 2:
+                self.counter, self.bound = l.id, t.comparators[0]
+            elif isinstance(r, ast.Name) and isinstance(op, (ast.Gt, ast.NotEq)) and len(self.defs.get(r.id, [])) >= 2:
+                self.counter, self.bound = r.id, t.left
+            else:
+                return "the loop test does not compare a counter with a bound"
+            ins = [d for d in self.defs[self.counter] if id(d[1]) in self.inloop]
+            outs = [d for d in self.defs[self.counter] if id(d[1]) not in self.inloop]
+            if not (len(ins) == 1 and isinstance(ins[0][0], tuple) and ins[0][0][1] == "Add" and isinstance(ins[0][0][2], ast.Constant) and ins[0][0][2].value == 1):
+                return "the counter is not advanced by exactly one `+= 1`"
+            if not (len(outs) == 1 and isinstance(outs[0][0], ast.AST)):
+                return "the counter has no single initialisation"
+            v = self.X(outs[0][0])
+            self.start = v.value if isinstance(v, ast.Constant) and isinstance(v.value, int) else None
+            # the counter may be advanced before or after the body uses it
+            uses = [x.lineno for st in lp.body for x in ast.walk(st) if isinstance(x, ast.Name) and x.id == self.counter and isinstance(x.ctx, ast.Load)
+                    and not (isinstance(st, ast.AugAssign) and st is ins[0][1])]
+            inc = ins[0][1]
+            if inc not in lp.body:
+                return "the counter is advanced conditionally"
+            if uses and inc.lineno < min(uses):
+                self.start = None if self.start is None else self.start + 1
+            elif uses and not inc.lineno > max(uses):
+                return "the counter is advanced in the middle of the loop body"
+        return None
+
+    # -- state variables -----------------------------------------------------
+    def cls(self, name):
+        """class of a multiply-defined local: ('pos',) position variable, ('count',) slot counter, ('runval', p) running value of input p,
+        ('kept', kind) index container, None"""
+        if name in self._cls:
+            return self._cls[name]
+        if name in self._busy:
+            return None
+        self._busy.add(name)
+        try:
+            ds = self.defs.get(name, [])
+            r = None
+            vals = []
+            for v, st in ds:
+                if v is None:
+                    vals.append(("opaque",))
+                elif isinstance(v, tuple):
+                    vals.append(("aug", v[1], self.D(self.X(v[2]))))
+                else:
+                    vals.append(self.D(self.X(v)))
+            if vals:
+                plain = [v for v in vals if v[0] != "aug"]
+                augs = [v for v in vals if v[0] == "aug"]
+                if augs and all(v[1] == "Add" and v[2][0] == "lit" for v in augs) and plain and all(v[0] == "lit" for v in plain):
+                    r = ("count",)
+                elif not augs and all(v[0] in ("lit", "pos") for v in plain) and any(v[0] == "pos" for v in plain):
+                    r = ("pos",)
+                elif not augs and all(v[0] in ("val", "inval") for v in plain) and len({v[1] for v in plain}) == 1:
+                    r = ("runval", plain[0][1])
+                elif plain and plain[0][0] == "alloc" and all(v[0] == "alloc" or v == ("kept", name) for v in plain) and not augs:
+                    r = ("kept", plain[0][1])
+            self._cls[name] = r
+            return r
+        finally:
+            self._busy.discard(name)
+
+    # -- descriptors -----------------------------------------------------------
+    def D(self, e):
+        """index-space descriptor of an (expanded) expression"""
+        if isinstance(e, ast.Constant):
+            if isinstance(e.value, int) and not isinstance(e.value, bool):
+                return ("lit", e.value)
+            return ("opaque", repr(e.value))
+        if isinstance(e, ast.UnaryOp) and isinstance(e.op, ast.USub) and isinstance(e.operand, ast.Constant) and isinstance(e.operand.value, int):
+            return ("lit", -e.operand.value)
+        if isinstance(e, ast.Name):
+            if e.id in self.inputs:
+                return ("in", e.id)
+            if e.id == self.counter:
+                return ("pos", "cur")
+            c = self.cls(e.id)
+            if c == ("pos",):
+                return ("pos", ("var", e.id))
+            if c == ("count",):
+                return ("count", e.id)
+            if c is not None and c[0] == "runval":
+                return ("runval", e.id, c[1])
+            if c is not None and c[0] == "kept":
+                return ("kept", e.id)
+            return ("opaque", e.id)
+        if isinstance(e, ast.BinOp) and isinstance(e.op, (ast.Add, ast.Sub)):
+            l, r = self.D(e.left), self.D(e.right)
+            if l == ("pos", "cur") and r[0] == "lit":
+                k = r[1] if isinstance(e.op, ast.Add) else -r[1]
+                return ("pos", "cur") if k == 0 else ("pos", ("cur", k))
+            if l[0] == "count" and r[0] == "lit":
+                return ("count+", l[1], r[1] if isinstance(e.op, ast.Add) else -r[1])
+            return ("opaque", norm(e))
+        if isinstance(e, ast.Attribute):
+            if e.attr == "size":
+                return ("size", self.D(e.value))
+            return ("opaque", norm(e))
+        if isinstance(e, ast.Call):
+            n = _cname(e)
+            recv = e.func.value if isinstance(e.func, ast.Attribute) and not _is_np(e) else None
+            a0 = recv if recv is not None else (e.args[0] if e.args else None)
+            d0 = self.D(a0) if a0 is not None else None
+            if n == "argsort" and d0 is not None and d0 == ("in", self.key):
+                return ("sorter",)
+            if n == "sort" and _is_np(e) and d0 == ("in", self.key):
+                return ("sv", self.key)
+            if n in _ALLOC and _is_np(e):
+                return ("alloc", n)
+            if n == "list" and not e.args and recv is None:
+                return ("alloc", "list")
+            if n in ("array", "asarray", "asanyarray", "copy") and d0 is not None and d0[0] in ("kept", "in", "sorter", "sv", "idxarr"):
+                return d0
+            if n in ("len", "size") and d0 is not None:
+                return ("size", d0)
+            if n == "take" and len(e.args) + (1 if recv is not None else 0) == 2:
+                return self.sub(d0, self.D(e.args[-1]), e)
+            return ("opaque", norm(e))
+        if isinstance(e, ast.List):
+            if not e.elts:
+                return ("alloc", "list")
+            return ("alloc", "list", tuple(self.D(x) for x in e.elts))
+        if isinstance(e, ast.Subscript):
+            b = self.D(e.value)
+            if isinstance(e.slice, ast.Slice):
+                if b[0] in ("kept", "idxarr"):
+                    return b
+                return ("slice-of", b)
+            return self.sub(b, self.D(e.slice), e)
+        return ("opaque", norm(e))
+
+    def sub(self, b, i, e):
+        if b[0] == "in":
+            if i == ("sorter",):
+                return ("sv", b[1])
+            if i[0] == "idx":
+                return ("val", b[1], i[1])
+            if i[0] == "lit":
+                return ("inval", b[1], i[1])
+            if i[0] == "pos":
+                return ("bad", "a sorted position is used to index the unsorted input")
+            if i[0] in ("kept", "idxarr"):
+                return ("vals", b[1], i)
+            return ("unk", "index of unknown space")
+        if b[0] in ("sorter", "sv"):
+            if i[0] == "pos" or i[0] == "lit":
+                p = i[1] if i[0] == "pos" else ("lit", i[1])
+                return ("idx", p) if b[0] == "sorter" else ("val", b[1], p)
+            if i[0] == "idx" or i[0] == "idxarr":
+                return ("bad", "an input index is used to index a sorted-order array")
+            if i[0] == "kept":
+                return ("idxarr", "via", i[1]) if b[0] == "sorter" else ("vals", b[1], i)
+            return ("unk", "index of unknown space")
+        if b[0] == "kept":
+            return ("keptslot", b[1], i)
+        return ("opaque", norm(e))
+
+
+def _scan_dedup(chk, fi, narr):
+    q = fi.qualname
+    sc = Scan(fi, narr)
+    fn = sc.fn
+    why = sc.find_loop()
+    chk.ob("R06.1", q + "::scan-recognised", None if why else True, fi.where(), "the de-duplication is one counted scan over the argsort of the input%s"
+           % ("" if not why else " -- " + why))
+    if why:
+        return
+    lp = sc.loop
+    # the sorter
+    has_sorter = any(sc.D(sc.X(x)) == ("sorter",) for x in walk_no_nested(fn) if isinstance(x, ast.Call) and _cname(x) == "argsort")
+    chk.ob("R06.1", q + "::sorter-found", True if has_sorter else None, fi.where(), "the scan is driven by an argsort of the input")
+    if not has_sorter:
+        return
+    chk.ob("R06.1", q + "::scan-starts-at-sorted-position-1", None if sc.start is None else sc.start in (0, 1), fi.where(lp),
+           "the scan visits every sorted position after the seed (it starts at position %s; position 0 is the seed)" % sc.start)
+    # every subscript is applied in the matching space
+    n_sub = 0
+    for x in walk_no_nested(fn):
+        if not isinstance(x, ast.Subscript):
+            continue
+        xe = sc.X(x) if isinstance(x.ctx, ast.Load) else ast.Subscript(value=sc.X(x.value), slice=sc.X(x.slice), ctx=ast.Load())
+        if not isinstance(xe, ast.Subscript) or isinstance(xe.slice, ast.Slice):
+            continue
+        b = sc.D(xe.value)
+        if b[0] not in ("in", "sorter", "sv"):
+            continue
+        n_sub += 1
+        d = sc.D(xe)
+        i = sc.D(xe.slice)
+        txt = norm(xe)
+        if b[0] == "in":
+            key = "%s::input-indexed-in-Idx-space::%s" % (q, txt)
+            msg = "`%s`: the input array must be indexed by an input index (sorter[position] or an array of such)" % txt
+            if d[0] == "inval":
+                chk.ob("R06.1", key, False, fi.where(x), msg + " -- a literal index into the *unsorted* input is not the element at sorted position %s: the scan "
+                       "compares against the wrong seed unless the input happens to start with its minimum" % d[2])
+            elif d[0] == "bad":
+                chk.ob("R06.1", key, False, fi.where(x), msg + " -- " + d[1])
+            elif d[0] == "unk":
+                chk.ob("R06.1", key, None, fi.where(x), msg + " -- " + d[1])
+            elif d[0] == "vals":
+                sp = _space_of_index(sc, d[2])
+                chk.ob("R06.1", key, None if sp is None else sp == "Idx", fi.where(x), msg + " (index array space: %s)" % sp)
+            else:
+                chk.ob("R06.1", key, True, fi.where(x), msg)
+        else:
+            key = "%s::sorted-indexed-in-Pos-space::%s" % (q, txt)
+            msg = "`%s`: sorted-order arrays are indexed by sorted positions" % txt
+            if d[0] == "bad":
+                chk.ob("R06.1", key, False, fi.where(x), msg + " -- " + d[1])
+            elif d[0] == "unk":
+                chk.ob("R06.1", key, None, fi.where(x), msg + " -- " + d[1])
+            elif d[0] in ("idxarr", "vals") and i[0] == "kept":
+                sp = _space_of_index(sc, i)
+                chk.ob("R06.1", key, None if sp is None else sp == "Pos", fi.where(x), msg + " (index array space: %s)" % sp)
+            else:
+                chk.ob("R06.1", key, True, fi.where(x), msg)
+    chk.ob("R06.1", q + "::subscripts-typed", True if n_sub >= 3 else None, fi.where(), "%d subscripts of the input / sorted arrays were typed" % n_sub)
+    _scan_logic(chk, sc, narr)
+
+
+def _kept_stores(sc):
+    """{container: [(slot descriptor | 'append', value descriptor, stmt)]}"""
+    out = {}
+    for x in walk_no_nested(sc.fn):
+        if isinstance(x, ast.Assign) and len(x.targets) == 1 and isinstance(x.targets[0], ast.Subscript):
+            t = x.targets[0]
+            b = sc.D(sc.X(t.value))
+            if b[0] == "kept":
+                slot = ("slice",) if isinstance(t.slice, ast.Slice) else sc.D(sc.X(t.slice))
+                out.setdefault(b[1], []).append((slot, sc.D(sc.X(x.value)), x))
+        elif isinstance(x, ast.Expr) and isinstance(x.value, ast.Call) and _cname(x.value) == "append" and isinstance(x.value.func, ast.Attribute) \
+                and len(x.value.args) == 1:
+            b = sc.D(sc.X(x.value.func.value))
+            if b[0] == "kept":
+                out.setdefault(b[1], []).append(("append", sc.D(sc.X(x.value.args[0])), x))
+    return out
+
+
+def _space_of_value(v):
+    if v[0] == "idx":
+        return "Idx"
+    if v[0] == "pos":
+        return "Pos"
+    return None
+
+
+def _space_of_index(sc, i):
+    """space of the entries of an index container descriptor"""
+    if i[0] == "idxarr":
+        return "Idx"
+    if i[0] == "kept":
+        sp = set()
+        for slot, v, st in _kept_stores(sc).get(i[1], []):
+            s_ = _space_of_value(v)
+            if s_ is None and v[0] == "lit":
+                continue
+            sp.add(s_)
+        ds = sc.defs.get(i[1], [])
+        for v, st in ds:
+            d = sc.D(sc.X(v)) if isinstance(v, ast.AST) else None
+            if d is not None and d[0] == "alloc" and len(d) == 3:
+                for el in d[2]:
+                    if el[0] != "lit":
+                        sp.add(_space_of_value(el))
+        if len(sp) == 1 and None not in sp:
+            return next(iter(sp))
+        return "mixed" if len(sp) > 1 and None not in sp else None
+    return None
+
+
+def _scan_logic(chk, sc, narr):
+    fi, fn, lp, q = sc.fi, sc.fn, sc.loop, sc.fi.qualname
+    key, flagp = sc.key, sc.flagp
+    cfg = CFG(fn)
+    view = cfg.view()
+    cur = ("pos", "cur")
+
+    def ctrl(st):
+        n = rules.node_of_stmt(cfg, st)
+        return {id(b.ast): lab for b, lab in view.controlling_branches(n)} if n is not None else {}
+
+    def inloop(st):
+        return id(st) in sc.inloop
+
+    # -- the new-run test ----------------------------------------------------
+    runs = []
+    for x in ast.walk(lp):
+        if isinstance(x, ast.If):
+            t = sc.X(x.test)
+            if isinstance(t, ast.Compare) and len(t.ops) == 1 and isinstance(t.ops[0], (ast.NotEq, ast.Eq)):
+                a, b = sc.D(t.left), sc.D(t.comparators[0])
+                for me, ref in ((a, b), (b, a)):
+                    if me == ("val", key, "cur") and (ref[0] == "runval" and ref[2] == key or ref == ("val", key, ("cur", -1))
+                                                      or (ref[0] in ("val", "inval") and ref[1] == key and ref != me)):
+                        runs.append((x, ref, "T" if isinstance(t.ops[0], ast.NotEq) else "F"))
+    chk.ob("R06.1", q + "::new-run-test", True if len(runs) == 1 else None, fi.where(lp),
+           "a new run starts where the value at the current sorted position differs from the running value of the run (found %d such test(s))" % len(runs))
+    if len(runs) != 1:
+        return
+    runif, ref, newlab = runs[0]
+    samelab = "F" if newlab == "T" else "T"
+
+    def arm(st):
+        c = ctrl(st)
+        return {newlab: "new", samelab: "same"}.get(c.get(id(runif)))
+
+    # -- the running value is seeded from sorted position 0 and replaced at each new run
+    def seed_rule(var, p, what):
+        for v, st in sc.defs.get(var, []):
+            d = sc.D(sc.X(v)) if isinstance(v, ast.AST) else ("opaque",)
+            if not inloop(st):
+                ok = True if d == ("val", p, ("lit", 0)) else (False if d[0] == "inval" or (d[0] == "val" and d[2] != ("lit", 0)) else None)
+                chk.ob("R06.1", "%s::seed-from-sorted-position-0::%s" % (q, what), ok, fi.where(st),
+                       "the running %s is seeded from sorted position 0 (`%s`)" % (what, norm(sc.X(st))))
+    if ref[0] in ("val", "inval") and ref != ("val", key, ("cur", -1)):
+        chk.ob("R06.1", q + "::running-value-replaced-at-new-run", False, fi.where(runif),
+               "at a new run the running value becomes the value at the current sorted position; the scan compares every element with the fixed element `%s`"
+               % norm(sc.X(runif.test)))
+        return
+    if ref[0] == "runval":
+        seed_rule(ref[1], key, "value")
+        ins = [(sc.D(sc.X(v)) if isinstance(v, ast.AST) else ("opaque",), st) for v, st in sc.defs[ref[1]] if inloop(st)]
+        ok = bool(ins) and all(d == ("val", key, "cur") and arm(st) == "new" for d, st in ins)
+        chk.ob("R06.1", q + "::running-value-replaced-at-new-run", True if ok else (False if not ins else None), fi.where(runif),
+               "at a new run the running value becomes the value at the current sorted position")
+    # -- the larger-flag test (flagged variant) ------------------------------
+    flagif = fref = None
+    if flagp is not None:
+        fl = []
+        for x in ast.walk(lp):
+            if isinstance(x, ast.If):
+                t = sc.X(x.test)
+                if isinstance(t, ast.Compare) and len(t.ops) == 1 and isinstance(t.ops[0], (ast.Gt, ast.GtE, ast.Lt, ast.LtE)):
+                    a, b = sc.D(t.left), sc.D(t.comparators[0])
+                    for me, r_, left in ((a, b, True), (b, a, False)):
+                        if me == ("val", flagp, "cur") and (r_[0] == "runval" and r_[2] == flagp or (r_[0] == "val" and r_[1] == flagp and r_[2] != "cur")):
+                            larger = isinstance(t.ops[0], (ast.Gt, ast.GtE)) == left
+                            fl.append((x, r_, larger))
+        ok = True if len(fl) == 1 and fl[0][2] and ctrl(fl[0][0]).get(id(runif)) == samelab else (False if len(fl) == 1 and not fl[0][2] else None)
+        chk.ob("R06.1", q + "::largest-flag-wins", ok, fi.where(fl[0][0]) if fl else fi.where(lp),
+               "within a run the kept position is replaced only when the flag at the current position is larger than the largest flag seen in the run")
+        if ok is not True:
+            return
+        flagif, fref = fl[0][0], fl[0][1]
+
+    def where_arm(st):
+        a = arm(st)
+        if a == "same" and flagif is not None and ctrl(st).get(id(flagif)) == "T":
+            return "larger"
+        return a
+
+    # -- the kept container --------------------------------------------------
+    stores = _kept_stores(sc)
+    live = [k for k, v in stores.items() if any(inloop(st) for _, _, st in v)]
+    chk.ob("R06.1", q + "::kept-container", True if len(live) == 1 else None, fi.where(),
+           "kept entries are recorded in one index container filled by the scan (found %s)" % sorted(live))
+    if len(live) != 1:
+        return
+    kname = live[0]
+    st_all = stores[kname]
+    space = _space_of_index(sc, ("kept", kname))
+    chk.ob("R06.1", "%s::kept-array-single-space" % q, None if space is None else space in ("Idx", "Pos"), fi.where(),
+           "all entries recorded in the kept container are in one index space (%s)" % space)
+    if space not in ("Idx", "Pos"):
+        return
+    want_cur = ("idx", "cur") if space == "Idx" else cur
+    in_st = [(slot, v, st) for slot, v, st in st_all if inloop(st)]
+    pre_st = [(slot, v, st) for slot, v, st in st_all if not inloop(st) and st.lineno < lp.lineno]
+    post_st = [(slot, v, st) for slot, v, st in st_all if not inloop(st) and st.lineno > lp.lineno]
+    posvars = {v[1][1] for _, v, _ in in_st if v[0] in ("pos", "idx") and isinstance(v[1], tuple) and v[1][0] == "var"}
+    mode = "B" if posvars else "A"
+    alloc = [(sc.D(sc.X(v)), st) for v, st in sc.defs.get(kname, []) if isinstance(v, ast.AST)]
+    alloc = [(d, st) for d, st in alloc if d[0] == "alloc"]
+    k0 = "%s::slot0-seeded-from-sorted-position-0" % q
+    if mode == "A":
+        # every store in the loop happens at a new run, or for a larger flag within the run
+        for slot, v, st in in_st:
+            a = where_arm(st)
+            chk.ob("R06.1", "%s::store-guard::%s" % (q, norm(sc.X(st))), a in ("new", "larger"), fi.where(st),
+                   "`%s` happens when the value changes (new run) or a larger flag is seen" % norm(st))
+            okv = v == want_cur
+            chk.ob("R06.1", "%s::store-records-current-position::%s" % (q, norm(sc.X(st))), True if okv else None, fi.where(st),
+                   "the recorded entry is the current sorted position%s" % (" mapped through the sorter" if space == "Idx" else ""))
+        news = [(slot, v, st) for slot, v, st in in_st if where_arm(st) == "new"]
+        ok = None
+        slot_new = None
+        if len(news) == 1:
+            slot_new = news[0][0]
+            if slot_new == "append":
+                ok = True
+            elif slot_new[0] == "lit":
+                ok = False              # every run overwrites one fixed slot
+            elif slot_new[0] == "count":
+                c = slot_new[1]
+                incs = [st for v, st in sc.defs.get(c, []) if isinstance(v, tuple) and inloop(st)]
+                init = [sc.D(sc.X(v)) for v, st in sc.defs.get(c, []) if isinstance(v, ast.AST)]
+                if len(incs) == 1 and where_arm(incs[0]) == "new" and incs[0].lineno < news[0][2].lineno and init == [("lit", 0)]:
+                    ok = True
+                elif not incs:
+                    ok = False          # the slot counter never advances: every run overwrites the same slot
+        chk.ob("R06.1", q + "::new-run-takes-a-fresh-slot", ok, fi.where(runif), "each new run is recorded in the next free slot (slot 0 belongs to the seed)")
+        # slot 0
+        seeds = [(slot, v, st) for slot, v, st in pre_st if slot == ("lit", 0) or slot == "append"]
+        first = None
+        if seeds:
+            first = seeds[0][1]
+        elif alloc and len(alloc[0][0]) == 3 and alloc[0][0][2]:
+            first = alloc[0][0][2][0]
+        elif alloc and alloc[0][0][1] in ("zeros", "zeros_like"):
+            first = ("lit", 0)
+        elif alloc:
+            first = ("uninitialised",)
+        if space == "Idx":
+            ok = True if first == ("idx", ("lit", 0)) else (False if first is not None and first[0] in ("lit", "uninitialised") else None)
+            chk.ob("R06.1", k0, ok, fi.where(alloc[0][1]) if alloc else fi.where(),
+                   "the kept container holds input indices, so its first entry must be sorter[0] (the index of the smallest element); a zero-initialised "
+                   "slot names input index 0, which is only right when the first element is the minimum (found %s)" % (first,))
+        else:
+            ok = True if first == ("lit", 0) else (False if first is not None and first[0] in ("lit", "uninitialised", "idx") else None)
+            chk.ob("R06.1", k0, ok, fi.where(), "the kept container holds sorted positions; its first entry is position 0 (found %s)" % (first,))
+    else:
+        if len(posvars) != 1:
+            chk.ob("R06.1", q + "::kept-container", None, fi.where(), "one position variable is recorded per run (found %s)" % sorted(posvars))
+            return
+        b = next(iter(posvars))
+        want_b = ("idx", ("var", b)) if space == "Idx" else ("pos", ("var", b))
+        for slot, v, st in in_st:
+            chk.ob("R06.1", "%s::store-guard::%s" % (q, norm(sc.X(st))), True if (arm(st) == "new" and v == want_b and slot == "append") else
+                   (False if arm(st) != "new" else None), fi.where(st), "`%s`: the position remembered for the finished run is recorded when the value changes" % norm(st))
+        bdefs = [(sc.D(sc.X(v)) if isinstance(v, ast.AST) else ("opaque",), st) for v, st in sc.defs.get(b, [])]
+        outs = [(d, st) for d, st in bdefs if not inloop(st)]
+        ok = True if outs and all(d == ("lit", 0) for d, st in outs) else (False if outs and all(d[0] == "lit" for d, st in outs) else None)
+        chk.ob("R06.1", k0, ok, fi.where(outs[0][1]) if outs else fi.where(), "the remembered position starts at sorted position 0 (the first run)")
+        rec = [st for slot, v, st in in_st if arm(st) == "new"]
+        newdefs = [st for d, st in bdefs if inloop(st) and arm(st) == "new" and d == cur]
+        ok = True if len(rec) == 1 and len(newdefs) == 1 and rec[0].lineno < newdefs[0].lineno else None
+        chk.ob("R06.1", q + "::new-run-takes-a-fresh-slot", ok, fi.where(runif),
+               "at a new run the finished run's position is recorded first and the remembered position then restarts at the current position")
+        closing = [st for slot, v, st in post_st if slot == "append" and v == want_b
+                   and all(getattr(x, "lineno", 0) < lp.lineno for x in walk_no_nested(fn) if isinstance(x, ast.If) and id(x) in ctrl(st))]
+        chk.ob("R06.1", q + "::last-run-recorded", True if closing else False, fi.where(lp), "after the scan the position remembered for the last run is recorded")
+    # -- running maximum (flagged variant) -----------------------------------
+    if flagif is not None:
+        kk = q + "::running-maximum-updated-with-kept-position"
+        mm = "when a larger flag is seen both the remembered largest flag and the kept position are replaced, and a new run resets the remembered flag; " \
+             "otherwise a later, smaller flag can still displace the largest one"
+        upd = reset = None
+        if fref[0] == "runval":
+            f = fref[1]
+            seed_rule(f, flagp, "largest flag")
+            ins = [(sc.D(sc.X(v)) if isinstance(v, ast.AST) else ("opaque",), st) for v, st in sc.defs[f] if inloop(st)]
+            upd = any(d == ("val", flagp, "cur") and where_arm(st) == "larger" for d, st in ins)
+            reset = any(d == ("val", flagp, "cur") and where_arm(st) == "new" for d, st in ins)
+            strange = [st for d, st in ins if not (d == ("val", flagp, "cur") and where_arm(st) in ("larger", "new"))]
+            if strange:
+                chk.ob("R06.1", kk, None, fi.where(strange[0]), mm + " -- `%s` is not understood" % norm(strange[0]))
+                return
+        elif fref[0] == "val" and isinstance(fref[2], tuple) and fref[2][0] == "var":
+            bv = fref[2][1]
+            bdefs = [(sc.D(sc.X(v)) if isinstance(v, ast.AST) else ("opaque",), st) for v, st in sc.defs.get(bv, [])]
+            upd = any(d == cur and inloop(st) and where_arm(st) == "larger" for d, st in bdefs)
+            reset = any(d == cur and inloop(st) and where_arm(st) == "new" for d, st in bdefs)
+            outs = [d for d, st in bdefs if not inloop(st)]
+            if mode == "A" or (mode == "B" and bv not in posvars) or outs != [("lit", 0)]:
+                chk.ob("R06.1", kk, None, fi.where(flagif), mm + " -- the position variable `%s` the flag is read through is not the recorded one" % bv)
+                return
+        else:
+            chk.ob("R06.1", kk, None, fi.where(flagif), mm + " -- the comparand %s is not understood" % (fref,))
+            return
+        if mode == "A":
+            lar = [(slot, v, st) for slot, v, st in in_st if where_arm(st) == "larger"]
+            news = [(slot, v, st) for slot, v, st in in_st if where_arm(st) == "new"]
+            kept = len(lar) == 1 and len(news) == 1 and lar[0][0] == news[0][0] and lar[0][1] == want_cur and lar[0][0] != "append"
+            if kept and lar[0][0][0] == "count":
+                kept = not any(isinstance(v, tuple) and inloop(st) and where_arm(st) == "larger" for v, st in sc.defs.get(lar[0][0][1], []))
+        else:
+            kept = bool(upd)
+        chk.ob("R06.1", kk, bool(upd and reset and kept), fi.where(flagif), mm + " (largest flag updated: %s, reset at a new run: %s, kept position replaced: %s)"
+               % (bool(upd), bool(reset), bool(kept)))
+    # -- returned indices are in Idx space -------------------------------------
+    for r_ in [x for x in walk_no_nested(fn) if isinstance(x, ast.Return) and x.value is not None]:
+        vals = []
+        todo = [r_.value]
+        while todo:
+            v = todo.pop(0)
+            if isinstance(v, ast.IfExp):
+                todo[:0] = [v.body, v.orelse]
+            elif isinstance(v, ast.Tuple):
+                todo[:0] = list(v.elts)
+            else:
+                vals.append(v)
+        one = _size_one_guard(sc, r_, ctrl)
+        for n, v in enumerate(vals):
+            d = sc.D(sc.X(v))
+            kr = "%s::returns-Idx::%d@%s" % (q, n, norm(sc.X(v))[:60])
+            if d[0] == "kept":
+                sp = _space_of_index(sc, d)
+                chk.ob("R06.1", kr, None if sp is None else sp == "Idx", fi.where(r_), "the returned index array holds input indices (%s)" % sp)
+            elif d[0] == "idxarr":
+                sp = _space_of_index(sc, ("kept", d[2])) if len(d) == 3 else "Idx"
+                chk.ob("R06.1", kr, None if sp is None else sp == "Pos", fi.where(r_),
+                       "kept sorted positions are mapped back through the sorter before being returned (container space: %s)" % sp)
+            elif d[0] == "vals":
+                continue            # the values at the kept indices: typed by the subscript rule
+            elif d == ("sorter",):
+                chk.ob("R06.1", kr, False, fi.where(r_), "the whole sorter is returned: the kept positions were never selected from it")
+            elif (d == ("lit", 0) or d[0] == "in") and one:
+                chk.ob("R06.1", kr, True, fi.where(r_), "a one-element input returns index 0")
+            else:
+                chk.ob("R06.1", kr, None, fi.where(r_), "the returned value `%s` is not a recognised index array" % norm(sc.X(v)))
+    srt = [x for x in walk_no_nested(fn) if isinstance(x, ast.Call) and _cname(x) == "sort" and isinstance(x.func, ast.Attribute) and not _is_np(x)]
+    bad = [c for c in srt if sc.D(sc.X(c.func.value))[0] == "in"]
+    chk.ob("R06.1", q + "::sorts-own-array", not bad, fi.where(bad[0]) if bad else fi.where(), "an in-place sort is applied to a local index array, never to an argument")
+
+
+def _size_one_guard(sc, st, ctrl):
+    """is the statement reached only when the input has exactly one element"""
+    c = ctrl(st)
+    for x in walk_no_nested(sc.fn):
+        if isinstance(x, ast.If) and id(x) in c:
+            t = sc.X(x.test)
+            if isinstance(t, ast.Compare) and len(t.ops) == 1 and isinstance(t.ops[0], ast.Eq) and c[id(x)] == "T":
+                a, b = sc.D(t.left), sc.D(t.comparators[0])
+                if {a, b} == {("size", ("in", sc.key)), ("lit", 1)}:
+                    return True
+    return False
